@@ -127,12 +127,24 @@ Proof.
   apply H4; apply in_or_app; auto.
 Qed.
 
+Lemma list_eqb_refl : forall a, list_eqb a a = true.
+Proof. induction a; simpl; auto. rewrite Nat.eqb_refl; auto. Qed.
+
+Lemma group_unique : forall (L : list (list modid)) S1 S2 x,
+  NoDup (concat L) -> In S1 L -> In S2 L -> In x S1 -> In x S2 -> S1 = S2.
+Proof.
+  induction L as [|G L IH]; simpl; intros S1 S2 x ND H1 H2 X1 X2; try tauto.
+  destruct H1 as [<-|H1]; destruct H2 as [<-|H2]; auto.
+  - exfalso. eapply NoDup_app_disj; eauto. apply in_concat. eauto.
+  - exfalso. eapply NoDup_app_disj; eauto. apply in_concat. eauto.
+  - eapply IH; eauto. eapply NoDup_app_r'; eauto.
+Qed.
+
 (* ------------------------------------------------------------------ the development *)
 Section Correct.
   Variable content_of : modid -> stamp -> content.
   Variable imports : modid -> content -> opts -> list modid.
   Variable probes : modid -> content -> opts -> list modid.
-  Variable check : modid -> content -> opts -> (modid -> option ihash) -> result.
   Variable analyze : list modid -> (modid -> content) -> opts -> (modid -> option ihash) -> modid -> result.
   Variable sccs_of : list (modid * list modid) -> list (list modid).
   Variable reach : list (modid * list modid) -> modid -> modid -> bool.
@@ -141,18 +153,22 @@ Section Correct.
   Variable ign_of : modid -> stamp -> opts -> bool.
   Variable blocker : modid -> content -> bool.
 
-  (* ---- the analysis contract (monitored on the implementation, not proved) *)
-  (* the result for a module depends on the environment only through its import candidates and the
-     modules it reports as indirect dependencies *)
-  Hypothesis check_reads : forall m c o env env',
-    (forall d, In d (imports m c o ++ probes m c o) \/ In d (r_indirect (check m c o env)) -> env d = env' d) ->
-    check m c o env = check m c o env'.
-  Hypothesis check_indirect_dom : forall m c o env d, In d (r_indirect (check m c o env)) -> env d <> None.
-  Hypothesis indirect_noself : forall m c o env, ~ In m (r_indirect (check m c o env)).
-  Hypothesis iface_nonzero : forall m c o env, r_iface (check m c o env) <> 0.
-  (* analysing an SCC yields, for each member, the per-module result w.r.t. the final interfaces *)
-  Hypothesis analyze_local : forall S src o env m, In m S ->
-    analyze S src o env m = check m (src m) o (extend env S (fun x => r_iface (analyze S src o env x))).
+  (* ---- the analysis contract (monitored on the implementation, not proved): THE SCC IS THE UNIT.
+     What the analysis of SCC S reads outside S: the import candidates and probes of its members and the modules it
+     reports as indirect dependencies. *)
+  Definition ext_reads (S : list modid) (src : modid -> content) (o : opts) (env : modid -> option ihash)
+             (m d : modid) : Prop :=
+    ~ In d S /\ (In d (imports m (src m) o ++ probes m (src m) o) \/ In d (r_indirect (analyze S src o env m))).
+  (* analyze is a function of the SET of members, their sources, the options and the lower interfaces it reads
+     (recorded violation: F10, the member ORDER matters to the real checker) *)
+  Hypothesis an_ext : forall S S' src src' o env env',
+    (forall x, In x S <-> In x S') -> (forall x, In x S -> src x = src' x) ->
+    (forall m d, In m S -> ext_reads S src o env m d -> env d = env' d) ->
+    forall m, In m S -> analyze S src o env m = analyze S' src' o env' m.
+  Hypothesis an_indirect_dom : forall S src o env m d,
+    In m S -> In d (r_indirect (analyze S src o env m)) -> In d S \/ env d <> None.
+  Hypothesis an_noself : forall S src o env m, ~ In m (r_indirect (analyze S src o env m)).
+  Hypothesis an_nonzero : forall S src o env m, r_iface (analyze S src o env m) <> 0.
 
   (* ---- the graph-algorithm contract *)
   Definition graph_ok (dm : list (modid * list modid)) : Prop :=
@@ -161,12 +177,14 @@ Section Correct.
     NoDup (concat L) /\ (forall m, In m (concat L) <-> In m (map fst dm)) /\
     (forall L1 S L2 m ds d, L = L1 ++ S :: L2 -> In m S -> lookup dm m = Some ds -> In d ds -> In d (concat L1 ++ S)).
   Hypothesis sccs_spec : forall dm, graph_ok dm -> sccs_ok dm (sccs_of dm).
+  (* the decomposition, as a set of sets, depends only on the edge SETS (true of any SCC algorithm; the harness checks
+     that warm and cold runs of the same step see the same groups) *)
+  Hypothesis sccs_groups_ext : forall dm dm', map fst dm = map fst dm' ->
+    (forall m ds ds' d, lookup dm m = Some ds -> lookup dm' m = Some ds' -> (In d ds <-> In d ds')) ->
+    forall S, In S (sccs_of dm) -> exists S', In S' (sccs_of dm') /\ (forall x, In x S <-> In x S').
   Hypothesis reach_before : forall dm L1 S L2 m d,
     sccs_of dm = L1 ++ S :: L2 -> In m S -> reach dm m d = true -> In d (concat L1 ++ S).
-  (* hash injectivity, as used by the fast path of verify_transitive_deps: equal trans_dep_hash => same transitive
-     import structure below the module, hence the same reachable modules *)
   Hypothesis thash_reach : forall dm dm' m, thash dm m = thash dm' m -> forall d, reach dm m d = reach dm' m d.
-  (* mypy's stated invariant: indirect dependencies reported by the analysis are reachable through direct imports *)
   Hypothesis indirect_reach : forall dm S src o env m d,
     In S (sccs_of dm) -> In m S -> In d (r_indirect (analyze S src o env m)) -> reach dm m d = true.
 
@@ -193,25 +211,42 @@ Section Correct.
 
   Definition eo (e : meta) : opts := {| o_snap := m_snap e; o_version := m_version e; o_plugin := m_plugin e |}.
 
-  (* an entry was produced by `check` on exactly the inputs its hashes name *)
-  Definition EntryOK (m : modid) (e : meta) (x : meta_ex) : Prop :=
-    (m_hash e = content_of m (m_stamp e) /\ blocker m (m_hash e) = false) /\
-    exists envm, let r := check m (m_hash e) (eo e) envm in
-      m_ihash e = r_iface r /\ x_errors x = (if m_ignore_all e then [] else r_errors r) /\
-      incl (imports m (m_hash e) (eo e)) (m_deps e ++ m_supp e) /\
-      incl (r_indirect r) (m_deps e ++ x_deps x) /\
-      (forall d h, In (d, h) (combine (m_deps e ++ x_deps x) (m_dep_hashes e ++ x_dep_hashes x)) -> envm d = Some h) /\
-      length (m_dep_hashes e ++ x_dep_hashes x) = length (m_deps e ++ x_deps x) /\
-      (forall d, In d (m_supp e) -> envm d = None) /\
-      (forall d, In d (probes m (m_hash e) (eo e)) -> In d (m_deps e) \/ envm d = None) /\
-      (forall dm d, thash dm m = m_thash e -> In d (r_indirect r) -> reach dm m d = true).
+  (* The analysis calls that produced the entries: (run number, member list) |-> (sources, lower interfaces). *)
+  Definition calls := nat -> list modid -> (modid -> content) * (modid -> option ihash).
 
-  Definition CacheOK (c : store) : Prop :=
-    (forall m e x, s_meta c m = Some e -> s_ex c m = Some x -> EntryOK m e x) /\
-    (forall m e d, s_meta c m = Some e -> s_data c m = Some d -> d_iface d = m_ihash e).
+  (* an entry was produced by the analysis call it names, on exactly the inputs its hashes name *)
+  Definition EntryOK (K : calls) (m : modid) (e : meta) (x : meta_ex) : Prop :=
+    let S0 := m_scc e in let src0 := fst (K (m_gen e) S0) in let env0 := snd (K (m_gen e) S0) in
+    let r := analyze S0 src0 (eo e) env0 m in
+    In m S0 /\ src0 m = m_hash e /\ m_hash e = content_of m (m_stamp e) /\ blocker m (m_hash e) = false /\
+    m_ihash e = r_iface r /\ x_errors x = (if m_ignore_all e then [] else r_errors r) /\
+    incl (imports m (m_hash e) (eo e)) (m_deps e ++ m_supp e) /\
+    incl (m_deps e ++ m_supp e) (imports m (m_hash e) (eo e) ++ probes m (m_hash e) (eo e)) /\
+    incl (r_indirect r) (m_deps e ++ x_deps x) /\
+    (forall d h, In (d, h) (combine (m_deps e ++ x_deps x) (m_dep_hashes e ++ x_dep_hashes x)) -> ~ In d S0 -> env0 d = Some h) /\
+    length (m_dep_hashes e ++ x_dep_hashes x) = length (m_deps e ++ x_deps x) /\
+    (forall d, In d (m_supp e) -> env0 d = None) /\
+    (forall d, In d (probes m (m_hash e) (eo e)) -> In d (m_deps e) \/ env0 d = None) /\
+    (forall dm d, thash dm m = m_thash e -> In d (r_indirect r) -> reach dm m d = true).
+
+  (* provenance: the members of a call are written together, so a co-member's entry is never older, and entries of the
+     same run that share a member are entries of the same call *)
+  Definition GenOK (c : store) : Prop :=
+    (forall m m' e e', s_meta c m = Some e -> s_meta c m' = Some e' -> In m' (m_scc e) -> m_gen e <= m_gen e') /\
+    (forall m m' e e', s_meta c m = Some e -> s_meta c m' = Some e' -> m_gen e = m_gen e' -> In m' (m_scc e) ->
+                       m_scc e' = m_scc e).
+
+  Definition StoreOK (K : calls) (c : store) : Prop :=
+    (forall m e x, s_meta c m = Some e -> s_ex c m = Some x -> EntryOK K m e x) /\
+    (forall m e d, s_meta c m = Some e -> s_data c m = Some d -> d_iface d = m_ihash e) /\
+    GenOK c.
+  Definition CacheOK (c : store) : Prop := exists K, StoreOK K c.
+  Definition GenBound (c : store) (n : nat) : Prop := forall m e, s_meta c m = Some e -> m_gen e < n.
 
   Lemma CacheOK_empty : CacheOK empty_store.
-  Proof. split; simpl; intros; discriminate. Qed.
+  Proof. exists (fun _ _ => (fun _ => 0, fun _ => None)). repeat split; simpl; intros; discriminate. Qed.
+  Lemma GenBound_empty : forall n, GenBound empty_store n.
+  Proof. intros n m e H; discriminate. Qed.
 
   Definition FSOK (fs : FS) : Prop := NoDup (map fst fs).
 
@@ -247,45 +282,60 @@ Section Correct.
   Qed.
 
   (* everything one needs to know about a module whose cached meta was accepted *)
-  Lemma load_ok : forall c o fs m e x, CacheOK c -> load_meta c o fs m = Some (e, x) ->
+  Lemma load_ok : forall K c o fs m e x, StoreOK K c -> load_meta c o fs m = Some (e, x) ->
     exists s d, lookup fs m = Some s /\ s_meta c m = Some e /\ s_ex c m = Some x /\ s_data c m = Some d /\
-      eo e = o /\ m_hash e = content_of m s /\ d_iface d = m_ihash e /\ EntryOK m e x /\
+      eo e = o /\ m_hash e = content_of m s /\ d_iface d = m_ihash e /\ EntryOK K m e x /\
       find_cache_meta c o m = Some (e, x) /\ (m_ignore_all e = true -> ign_of m s o = true).
   Proof.
-    intros c o fs m e x [C1 C2] H. apply load_spec in H as [s [Hs [Hf Hv]]].
+    intros K c o fs m e x [C1 [C2 _]] H. apply load_spec in H as [s [Hs [Hf Hv]]].
     pose proof (find_spec _ _ _ _ _ Hf) as [Hm [Hx Ho]].
-    pose proof (C1 _ _ _ Hm Hx) as EOK. pose proof EOK as [[Hh _] _].
+    pose proof (C1 _ _ _ Hm Hx) as EOK. pose proof EOK as [_ [_ [Hh _]]].
     destruct (validate_spec _ _ _ _ _ Hv Hh) as [Hsrc [[d Hd] Hig]].
     exists s, d. assert (d_iface d = m_ihash e) by (eapply C2; eauto).
     split; [auto|]. split; [auto|]. split; [auto|]. split; [auto|]. split; [auto|]. split; [auto|].
     split; [auto|]. split; [auto|]. split; auto.
   Qed.
 
-  (* The condition under which reusing the cached dependency lists is right: no probed name that was NOT a module when
-     the entry was written is a module now.  mypy does not check it (finding: `from pkg import name`, then pkg/name.py
-     is added). *)
   Definition ProbeFresh (c : store) (o : opts) (fs : FS) : Prop :=
     forall m e x s, load_meta c o fs m = Some (e, x) -> lookup fs m = Some s ->
       forall d, In d (probes m (content_of m s) o) -> inG fs d = true -> In d (m_deps e).
 
-  Lemma imports_in_cands : forall c o fs m s d, CacheOK c -> ProbeFresh c o fs -> lookup fs m = Some s ->
-    In d (imports m (content_of m s) o ++ probes m (content_of m s) o) -> inG fs d = true -> In d (cands c o fs m s).
+  (* every SCC whose members all have a valid meta is the SCC those entries were written for (mypy does not check this:
+     a cycle broken by an edit that changes no interface leaves the other members fresh) *)
+  Definition SccFresh (c : store) (o : opts) (fs : FS) : Prop :=
+    forall S, In S (sccs_of (depmap c o fs)) -> (forall m, In m S -> load_meta c o fs m <> None) ->
+      forall m e x, In m S -> load_meta c o fs m = Some (e, x) -> forall y, In y (m_scc e) <-> In y S.
+
+  Lemma cands_spec : forall K c o fs m s d, StoreOK K c -> ProbeFresh c o fs -> lookup fs m = Some s -> inG fs d = true ->
+    (In d (cands c o fs m s) <-> In d (imports m (content_of m s) o ++ probes m (content_of m s) o)).
   Proof.
-    intros c o fs m s d HC HP Hs Hd HG. unfold Model.cands. destruct (load_meta c o fs m) as [[e x]|] eqn:L; auto.
-    destruct (load_ok _ _ _ _ _ _ HC L) as [s' [dd [Hs' [_ [_ [_ [Ho [Hh [_ [[_ [envm EOK]] _]]]]]]]]]].
-    rewrite Hs in Hs'; inversion Hs'; subst s'. simpl in EOK. destruct EOK as [_ [_ [Hi _]]].
-    rewrite Hh, Ho in Hi. apply in_app_or in Hd as [Hd|Hd]. apply Hi; auto.
-    apply in_or_app; left. eapply HP; eauto.
+    intros K c o fs m s d HC HP Hs HG. unfold Model.cands. destruct (load_meta c o fs m) as [[e x]|] eqn:L; [|tauto].
+    destruct (load_ok _ _ _ _ _ _ _ HC L) as [s' [dd [Hs' [_ [_ [_ [Ho [Hh [_ [EOK _]]]]]]]]]].
+    rewrite Hs in Hs'; inversion Hs'; subst s'. destruct EOK as [_ [_ [_ [_ [_ [_ [Hi [Hr _]]]]]]]].
+    rewrite Hh, Ho in Hi, Hr. split; intros H.
+    - apply Hr; auto.
+    - apply in_app_or in H as [H|H]. apply Hi; auto. apply in_or_app; left. eapply HP; eauto.
   Qed.
 
-  Lemma hard_in_cands : forall c o fs m s, CacheOK c -> lookup fs m = Some s ->
+  Lemma hard_in_cands : forall K c o fs m s, StoreOK K c -> lookup fs m = Some s ->
     incl (imports m (content_of m s) o) (Model.hard_cands content_of imports ign_of c o fs m s).
   Proof.
-    intros c o fs m s HC Hs. unfold Model.hard_cands. destruct (load_meta c o fs m) as [[e x]|] eqn:L.
-    - destruct (load_ok _ _ _ _ _ _ HC L) as [s' [dd [Hs' [_ [_ [_ [Ho [Hh [_ [[_ [envm EOK]] _]]]]]]]]]].
-      rewrite Hs in Hs'; inversion Hs'; subst s'. simpl in EOK. destruct EOK as [_ [_ [Hi _]]].
+    intros K c o fs m s HC Hs. unfold Model.hard_cands. destruct (load_meta c o fs m) as [[e x]|] eqn:L.
+    - destruct (load_ok _ _ _ _ _ _ _ HC L) as [s' [dd [Hs' [_ [_ [_ [Ho [Hh [_ [EOK _]]]]]]]]]].
+      rewrite Hs in Hs'; inversion Hs'; subst s'. destruct EOK as [_ [_ [_ [_ [_ [_ [Hi _]]]]]]].
       rewrite Hh, Ho in Hi. exact Hi.
     - apply incl_refl.
+  Qed.
+
+  Lemma hard_sub : forall K c o fs m s, StoreOK K c -> lookup fs m = Some s ->
+    incl (Model.hard_cands content_of imports ign_of c o fs m s)
+         (imports m (content_of m s) o ++ probes m (content_of m s) o).
+  Proof.
+    intros K c o fs m s HC Hs. unfold Model.hard_cands. destruct (load_meta c o fs m) as [[e x]|] eqn:L.
+    - destruct (load_ok _ _ _ _ _ _ _ HC L) as [s' [dd [Hs' [_ [_ [_ [Ho [Hh [_ [EOK _]]]]]]]]]].
+      rewrite Hs in Hs'; inversion Hs'; subst s'. destruct EOK as [_ [_ [_ [_ [_ [_ [_ [Hr _]]]]]]]].
+      rewrite Hh, Ho in Hr. exact Hr.
+    - intros d Hd. apply in_or_app; auto.
   Qed.
 
   Lemma lookup_depmap : forall c o (fs : FS) m s, lookup fs m = Some s ->
@@ -306,58 +356,101 @@ Section Correct.
     simpl in E. inversion E; subst. unfold Model.direct_deps in Hd. apply found_In in Hd as [_ Hd]. apply inG_In; auto.
   Qed.
 
-  (* ---- the per-module equations a run solves *)
-  Definition Good (fs : FS) (o : opts) (env : penv) : Prop :=
-    forall m p, lookup env m = Some p -> exists s, lookup fs m = Some s /\
-      let r := check m (content_of m s) o (ienv env) in
-      p_iface p = r_iface r /\ p_errors p = (if ign_of m s o then [] else r_errors r) /\ p_hash p = p_iface p.
-
+  Lemma direct_deps_spec : forall K c o fs m s d, StoreOK K c -> ProbeFresh c o fs -> lookup fs m = Some s ->
+    (In d (direct_deps c o fs m s) <->
+     In d (imports m (content_of m s) o ++ probes m (content_of m s) o) /\ inG fs d = true).
+  Proof.
+    intros. unfold Model.direct_deps. rewrite found_In. split; intros [A B]; split; auto.
+    eapply cands_spec; eauto. eapply cands_spec; eauto.
+  Qed.
+  (* ---- what the environment of a run contains *)
+  Definition pm_is (fs : FS) (o : opts) (m : modid) (p : pm) (r : result) : Prop :=
+    exists s, lookup fs m = Some s /\ p_iface p = r_iface r /\
+              p_errors p = (if ign_of m s o then [] else r_errors r) /\ p_hash p = p_iface p.
+  (* every processed SCC holds the result of analysing it as a unit against the (final) lower interfaces *)
+  Definition GoodS (fs : FS) (o : opts) (L : list (list modid)) (env : penv) : Prop :=
+    forall S m, In S L -> In m S ->
+      exists p, lookup env m = Some p /\ pm_is fs o m p (analyze S (src_of fs) o (ienv env) m).
+  Definition DomG (fs : FS) (env : penv) : Prop := forall m, In m (map fst env) -> inG fs m = true.
   Definition Closed (fs : FS) (o : opts) (env : penv) : Prop :=
     forall m s d, In m (map fst env) -> lookup fs m = Some s ->
                   In d (imports m (content_of m s) o ++ probes m (content_of m s) o) ->
                   inG fs d = true -> In d (map fst env).
 
-  Lemma good_dom : forall fs o env m, Good fs o env -> In m (map fst env) -> inG fs m = true.
-  Proof. intros. apply lookup_dom in H0 as [p Hp]. apply H in Hp as [s [Hs _]]. apply inG_lookup; eauto. Qed.
+  Lemma src_of_eq : forall (fs : FS) m s, lookup fs m = Some s -> src_of fs m = content_of m s.
+  Proof. intros. unfold Model.src_of. rewrite H. auto. Qed.
 
-  (* extending the environment does not disturb the modules already processed *)
-  Lemma good_extend : forall fs o env ext m p,
-    Good fs o env -> Closed fs o env -> (forall d, In d (map fst ext) -> inG fs d = true) ->
-    lookup env m = Some p -> exists s, lookup fs m = Some s /\
-      let r := check m (content_of m s) o (ienv (env ++ ext)) in
-      p_iface p = r_iface r /\ p_errors p = (if ign_of m s o then [] else r_errors r) /\ p_hash p = p_iface p.
+  Lemma ienv_app_l : forall (env ext : penv) d, In d (map fst env) -> ienv (env ++ ext) d = ienv env d.
+  Proof. intros. apply lookup_dom in H as [q Hq]. unfold ienv. rewrite Hq. erewrite lookup_app_l; eauto. Qed.
+
+  Lemma ienv_none : forall fs (env : penv) d, DomG fs env -> inG fs d = false -> ienv env d = None.
   Proof.
-    intros fs o env ext m p HG HC Hext Hp. destruct (HG _ _ Hp) as [s [Hs H]]. exists s; split; auto.
-    simpl in *. replace (check m (content_of m s) o (ienv (env ++ ext))) with (check m (content_of m s) o (ienv env)); auto.
-    apply check_reads. intros d [Hd|Hd]; unfold ienv.
-    - destruct (inG fs d) eqn:G.
-      + assert (In d (map fst env)) by (eapply HC; eauto; eapply lookup_Some_dom; eauto).
-        apply lookup_dom in H0 as [q Hq]. rewrite Hq. erewrite lookup_app_l; eauto.
-      + assert (N1 : lookup env d = None).
-        { apply lookup_None. intro. apply (good_dom fs o) in H0; auto. congruence. }
-        rewrite N1. rewrite lookup_app_r by auto.
-        assert (N2 : lookup ext d = None). { apply lookup_None. intro X. apply Hext in X. congruence. }
-        rewrite N2; auto.
-    - apply check_indirect_dom in Hd. unfold ienv in Hd. destruct (lookup env d) eqn:Q; simpl in Hd; try congruence.
-      erewrite lookup_app_l; eauto.
+    intros. unfold ienv. destruct (lookup env d) eqn:Q; auto. apply lookup_Some_dom in Q. apply H in Q. congruence.
+  Qed.
+
+  (* what SCC S reads outside itself is already in the environment and stays as it is when the environment grows *)
+  Lemma reads_stable : forall fs o (env ext : penv) S,
+    DomG fs env -> DomG fs (env ++ ext) ->
+    (forall m1 s1 d, In m1 S -> lookup fs m1 = Some s1 ->
+       In d (imports m1 (content_of m1 s1) o ++ probes m1 (content_of m1 s1) o) -> inG fs d = true -> ~ In d S ->
+       In d (map fst env)) ->
+    (forall m1, In m1 S -> inG fs m1 = true) ->
+    forall m1 d, In m1 S -> ext_reads S (src_of fs) o (ienv env) m1 d -> ienv env d = ienv (env ++ ext) d.
+  Proof.
+    intros fs o env ext S D1 D2 Hdir HS m1 d Hm1 [HnS [Hd|Hd]].
+    - destruct (proj1 (inG_lookup fs m1) (HS _ Hm1)) as [s1 Hs1]. rewrite (src_of_eq _ _ _ Hs1) in Hd.
+      destruct (inG fs d) eqn:G.
+      + symmetry. apply ienv_app_l. eapply Hdir; eauto.
+      + rewrite (ienv_none fs env d D1 G). rewrite (ienv_none fs (env ++ ext) d D2 G). auto.
+    - destruct (an_indirect_dom _ _ _ _ _ _ Hm1 Hd) as [X|X]; [tauto|].
+      symmetry. apply ienv_app_l. unfold ienv in X. destruct (lookup env d) eqn:Q; simpl in X; try congruence.
+      eapply lookup_Some_dom; eauto.
   Qed.
 
   (* ---- facts about the SCC being processed *)
-  Lemma step_facts : forall c o fs L1 S L2 (env : penv),
+  Lemma step_facts : forall K c o fs L1 S L2 (env : penv),
+    StoreOK K c -> ProbeFresh c o fs ->
     FSOK fs -> sccs_of (depmap c o fs) = L1 ++ S :: L2 -> map fst env = concat L1 ->
     (forall m, In m S -> inG fs m = true) /\ (forall m, In m S -> ~ In m (map fst env)) /\ NoDup S /\
-    (forall m s d, In m S -> lookup fs m = Some s -> In d (direct_deps c o fs m s) -> In d (map fst env ++ S)).
+    (forall m s d, In m S -> lookup fs m = Some s -> In d (direct_deps c o fs m s) -> In d (map fst env ++ S)) /\
+    (forall m1 s1 d, In m1 S -> lookup fs m1 = Some s1 ->
+       In d (imports m1 (content_of m1 s1) o ++ probes m1 (content_of m1 s1) o) -> inG fs d = true -> ~ In d S ->
+       In d (map fst env)).
   Proof.
-    intros c o fs L1 S L2 env HFS HL Hdom.
+    intros K c o fs L1 S L2 env HC HP HFS HL Hdom.
     destruct (sccs_spec _ (depmap_ok c o fs HFS)) as [ND [Hcov Htopo]]. rewrite HL in *.
     rewrite concat_app in ND, Hcov. simpl in ND, Hcov.
-    repeat split.
+    assert (T : forall m s d, In m S -> lookup fs m = Some s -> In d (direct_deps c o fs m s) -> In d (map fst env ++ S)).
+    { intros m s d Hm Hs Hd. rewrite Hdom. eapply Htopo; eauto. apply lookup_depmap; auto. }
+    split; [|split; [|split; [|split]]]; auto.
     - intros m Hm. apply inG_In. rewrite <- (depmap_dom c o fs). apply Hcov. rewrite !in_app_iff; auto.
     - intros m Hm Hin. rewrite Hdom in Hin. eapply NoDup_app_disj; eauto. apply in_or_app; auto.
     - apply NoDup_app_r' in ND. apply NoDup_app_l' in ND. auto.
-    - intros m s d Hm Hs Hd. rewrite Hdom. eapply Htopo; eauto. apply lookup_depmap; auto.
+    - intros m1 s1 d Hm1 Hs1 Hd HG HnS.
+      assert (In d (map fst env ++ S)). { eapply T; eauto. eapply direct_deps_spec; eauto. }
+      apply in_app_or in H as [H|H]; tauto.
   Qed.
 
+  Lemma goodS_extend : forall fs o L1 (env ext : penv),
+    GoodS fs o L1 env -> map fst env = concat L1 -> DomG fs env -> DomG fs (env ++ ext) -> Closed fs o env ->
+    GoodS fs o L1 (env ++ ext).
+  Proof.
+    intros fs o L1 env ext HG Hdom D1 D2 HCl S m HS Hm.
+    destruct (HG S m HS Hm) as [p [Hp [s [Hs H]]]]. exists p. split. erewrite lookup_app_l; eauto.
+    exists s; split; auto.
+    assert (SD : forall x, In x S -> In x (map fst env)). { intros x Hx. rewrite Hdom. apply in_concat. eauto. }
+    replace (analyze S (src_of fs) o (ienv (env ++ ext)) m) with (analyze S (src_of fs) o (ienv env) m); auto.
+    apply an_ext; auto; try tauto.
+    apply (reads_stable fs o env ext S D1 D2); auto.
+    intros m1 s1 d Hm1 Hs1 Hd HGd _. eapply HCl; eauto.
+  Qed.
+
+  Lemma env_hash : forall fs o L1 (env : penv) d q, GoodS fs o L1 env -> map fst env = concat L1 ->
+    lookup env d = Some q -> p_hash q = p_iface q.
+  Proof.
+    intros fs o L1 env d q HG Hdom Hq. pose proof (lookup_Some_dom _ _ _ _ Hq) as Hin. rewrite Hdom in Hin.
+    apply in_concat in Hin as [S [HS Hd]]. destruct (HG S d HS Hd) as [p [Hp [s [_ [_ [_ H]]]]]]. congruence.
+  Qed.
   Lemma fresh_parts : forall c o fs dm env S m, scc_fresh c o fs dm env S = true -> In m S ->
     is_fresh c o fs m = true /\ dep_hashes_ok c o fs env m = true /\ trans_ok c o fs dm S m = true.
   Proof.
@@ -379,466 +472,562 @@ Section Correct.
                             p_errors := if ign_of m s o then [] else x_errors x |}.
   Proof. intros. unfold Model.cached_pm. rewrite H, H0, H1. auto. Qed.
 
-  (* ---- a fresh SCC: the replayed results solve the equations *)
-  Lemma fresh_good : forall c o fs L1 S L2 env m,
-    CacheOK c -> ProbeFresh c o fs -> FSOK fs -> sccs_of (depmap c o fs) = L1 ++ S :: L2 -> map fst env = concat L1 ->
-    Good fs o env -> scc_fresh c o fs (depmap c o fs) env S = true -> In m S ->
-    exists s, lookup fs m = Some s /\
-      let r := check m (content_of m s) o (ienv (env ++ map (fun x => (x, cached_pm c o fs x)) S)) in
-      p_iface (cached_pm c o fs m) = r_iface r /\
-      p_errors (cached_pm c o fs m) = (if ign_of m s o then [] else r_errors r) /\
-      p_hash (cached_pm c o fs m) = p_iface (cached_pm c o fs m).
+  Lemma domG_app : forall fs (env : penv) (f : modid -> pm) S, DomG fs env -> (forall m, In m S -> inG fs m = true) ->
+    DomG fs (env ++ map (fun x => (x, f x)) S).
   Proof.
-    intros c o fs L1 S L2 env m HC HP HFS HL Hdom HG HF Hm.
-    destruct (step_facts _ _ _ _ _ _ _ HFS HL Hdom) as [SinG [Sdisj [SND Stopo]]].
-    destruct (fresh_parts _ _ _ _ _ _ _ HF Hm) as [F1 [F2 F3]].
-    destruct (is_fresh_spec _ _ _ _ F1) as [e [x [L [Hall Hsupp]]]].
-    destruct (load_ok _ _ _ _ _ _ HC L) as [s [d [Hs [Hme [Hx [Hd [Ho [Hh [Hdi [[_ [envm EOK]] [Hfind Hig]]]]]]]]]]].
-    simpl in EOK. destruct EOK as [E1 [E2 [E3 [E4 [E5 [E6 [E7 [E8 E9]]]]]]]].
-    exists s; split; auto. rewrite (cached_pm_eq _ _ _ _ _ _ _ _ L Hd Hs); simpl.
-    set (env' := env ++ map (fun x0 => (x0, cached_pm c o fs x0)) S).
-    rewrite Hh, Ho in *.
-    assert (AG : forall d0, In d0 (m_deps e ++ x_deps x) ->
-                 In d0 (m_deps e) \/ In d0 (r_indirect (check m (content_of m s) o envm)) -> envm d0 = ienv env' d0).
-    { intros d0 Hd0 HR. destruct (combine_In_ex _ _ d0 E6 Hd0) as [h Hh0]. rewrite (E5 _ _ Hh0).
-      unfold Model.dep_hashes_ok in F2. rewrite L in F2. rewrite forallb_forall in F2. specialize (F2 _ Hh0). simpl in F2.
-      rewrite (Hall _ Hd0) in F2. simpl in F2. apply Nat.eqb_eq in F2. unfold Model.cur_hash in F2.
-      unfold ienv, env'. destruct (lookup env d0) as [q|] eqn:Q.
-      - erewrite lookup_app_l by eauto. simpl. destruct (HG _ _ Q) as [_ [_ [_ [_ Hq]]]]. congruence.
-      - rewrite lookup_app_r by auto.
-        assert (In d0 S).
-        { assert (In d0 (map fst env ++ S)).
-          { assert (DIR : In d0 (m_deps e) -> In d0 (map fst env ++ S)).
-            { intros A. eapply Stopo; eauto. unfold Model.direct_deps, Model.cands. rewrite L. apply found_In. split.
-              apply in_or_app; auto. apply Hall. apply in_or_app; auto. }
-            destruct HR as [HRd|HRi]; auto.
-            apply in_app_or in Hd0 as [Hd0|Hd0]; auto.
-            unfold Model.trans_ok in F3. rewrite L in F3. apply orb_true_iff in F3 as [FT|F3].
-            - apply Nat.eqb_eq in FT. rewrite Hdom. eapply reach_before; eauto.
-            - rewrite forallb_forall in F3. specialize (F3 _ Hd0).
-              apply orb_true_iff in F3 as [F3|F3]. apply mem_In in F3. apply in_or_app; auto.
-              rewrite Hdom. eapply reach_before; eauto. }
-          apply in_app_or in H as [H|H]; auto. apply lookup_None in Q. tauto. }
-        rewrite (lookup_map_fn _ (cached_pm c o fs) S d0 H). simpl.
-        destruct (fresh_parts _ _ _ _ _ _ _ HF H) as [G1 _].
-        destruct (is_fresh_spec _ _ _ _ G1) as [e0 [x0 [L0 _]]].
-        destruct (load_ok _ _ _ _ _ _ HC L0) as [s0 [dd [Hs0 [_ [_ [Hdd [_ [_ [Hddi [_ [Hfind0 _]]]]]]]]]]].
-        rewrite Hfind0 in F2. rewrite (cached_pm_eq _ _ _ _ _ _ _ _ L0 Hdd Hs0). simpl. congruence. }
-    assert (DOM : forall d0, inG fs d0 = false -> ienv env' d0 = None).
-    { intros d0 Hd0. unfold ienv, env'. destruct (lookup (env ++ map (fun x1 => (x1, cached_pm c o fs x1)) S) d0) eqn:Q; auto.
-      apply lookup_Some_dom in Q. rewrite map_app, in_app_iff in Q. destruct Q as [Q|Q].
-      - apply (good_dom fs o) in Q; auto. congruence.
-      - rewrite map_map in Q; simpl in Q. rewrite map_id in Q. apply SinG in Q. congruence. }
-    replace (check m (content_of m s) o (ienv env')) with (check m (content_of m s) o envm).
-    { split; [congruence|]. split; [|congruence].
-      destruct (ign_of m s o) eqn:IG; auto. rewrite E2.
-      destruct (m_ignore_all e) eqn:MI; auto. specialize (Hig eq_refl). discriminate. }
-    apply check_reads. intros d0 [Hd0|Hd0].
-    - apply in_app_or in Hd0 as [Hd0|Hp].
-      + apply E3 in Hd0. apply in_app_or in Hd0 as [Hd0|Hd0].
-        * apply AG; [apply in_or_app; auto | left; auto].
-        * rewrite (E7 _ Hd0). symmetry. apply DOM.
-          destruct (inG fs d0) eqn:G; auto. assert (In d0 (found fs (m_supp e))) by (apply found_In; auto).
-          rewrite Hsupp in H. inversion H.
-      + destruct (inG fs d0) eqn:G.
-        * assert (In d0 (m_deps e)) by (eapply HP; eauto). apply AG; [apply in_or_app; auto | left; auto].
-        * destruct (E8 _ Hp) as [X|X]. apply AG; [apply in_or_app; auto | left; auto]. rewrite X. symmetry. apply DOM; auto.
-    - apply AG; [apply E4; auto | right; auto].
-  Qed.
-  (* ---- a stale SCC: the re-analysed results solve the equations *)
-  Lemma ienv_stale : forall fs o (env : penv) S (R : modid -> result) d,
-    (forall m, In m S -> ~ In m (map fst env)) ->
-    ienv (env ++ map (fun m => (m, fresh_pm fs o R m)) S) d = extend (ienv env) S (fun x => r_iface (R x)) d.
-  Proof.
-    intros fs o env S R d Hdisj. unfold ienv, extend. destruct (mem d S) eqn:M.
-    - apply mem_In in M. rewrite lookup_app_r by (apply lookup_None; auto).
-      rewrite (lookup_map_fn _ (fun m => fresh_pm fs o R m) S d M). auto.
-    - apply mem_false in M. destruct (lookup env d) eqn:Q.
-      + erewrite lookup_app_l; eauto.
-      + rewrite lookup_app_r by auto. rewrite (lookup_map_fn_None _ (fun m => fresh_pm fs o R m) S d M). auto.
+    intros fs env f S D HS m Hm. rewrite map_app, in_app_iff in Hm. destruct Hm as [Hm|Hm]; auto.
+    rewrite map_map in Hm; simpl in Hm. rewrite map_id in Hm. auto.
   Qed.
 
-  Lemma src_of_eq : forall (fs : FS) m s, lookup fs m = Some s -> src_of fs m = content_of m s.
-  Proof. intros. unfold Model.src_of. rewrite H. auto. Qed.
-
-  Lemma stale_good : forall c o fs L1 S L2 (env : penv) m,
-    FSOK fs -> sccs_of (depmap c o fs) = L1 ++ S :: L2 -> map fst env = concat L1 -> In m S ->
+  (* ---- a stale SCC: analysed as a unit against the lower interfaces *)
+  Lemma stale_good : forall K c o fs L1 S L2 (env : penv) m,
+    StoreOK K c -> ProbeFresh c o fs -> FSOK fs -> sccs_of (depmap c o fs) = L1 ++ S :: L2 -> map fst env = concat L1 ->
+    DomG fs env -> In m S ->
     let R := analyze S (src_of fs) o (ienv env) in
-    exists s, lookup fs m = Some s /\
-      R m = check m (content_of m s) o (ienv (env ++ map (fun m => (m, fresh_pm fs o R m)) S)).
+    pm_is fs o m (fresh_pm fs o R m)
+          (analyze S (src_of fs) o (ienv (env ++ map (fun x => (x, fresh_pm fs o R x)) S)) m).
   Proof.
-    intros c o fs L1 S L2 env m HFS HL Hdom Hm R.
-    destruct (step_facts _ _ _ _ _ _ _ HFS HL Hdom) as [SinG [Sdisj [SND Stopo]]].
-    destruct (proj1 (inG_lookup fs m) (SinG _ Hm)) as [s Hs]. exists s; split; auto.
-    unfold R at 1. rewrite analyze_local by auto. rewrite (src_of_eq _ _ _ Hs).
-    apply check_reads. intros d _. symmetry. apply ienv_stale; auto.
+    intros K c o fs L1 S L2 env m HC HP HFS HL Hdom D1 Hm R.
+    destruct (step_facts _ _ _ _ _ _ _ _ HC HP HFS HL Hdom) as [SinG [Sdisj [SND [Stopo Sdir]]]].
+    destruct (proj1 (inG_lookup fs m) (SinG _ Hm)) as [s Hs]. exists s. split; auto.
+    replace (analyze S (src_of fs) o (ienv (env ++ map (fun x => (x, fresh_pm fs o R x)) S)) m) with (R m).
+    { simpl. unfold Model.ign_now. rewrite Hs. auto. }
+    unfold R. apply an_ext; auto; try tauto.
+    apply (reads_stable fs o env _ S D1); auto. apply domG_app; auto.
   Qed.
 
-  (* ---- the invariant of the SCC loop, environment part *)
-  Lemma closed_step : forall c o fs L1 S L2 (env : penv) (ext : penv),
-    CacheOK c -> ProbeFresh c o fs -> FSOK fs -> sccs_of (depmap c o fs) = L1 ++ S :: L2 -> map fst env = concat L1 ->
-    map fst ext = S -> Closed fs o env -> Closed fs o (env ++ ext).
+  (* ---- a fresh SCC: by provenance all its entries stem from ONE analysis call on this member set, and that call's
+          inputs are the current sources and the current lower interfaces *)
+  Lemma fresh_good : forall K c o fs L1 S L2 (env : penv) m,
+    StoreOK K c -> ProbeFresh c o fs -> SccFresh c o fs -> FSOK fs ->
+    sccs_of (depmap c o fs) = L1 ++ S :: L2 -> map fst env = concat L1 ->
+    GoodS fs o L1 env -> DomG fs env -> scc_fresh c o fs (depmap c o fs) env S = true -> In m S ->
+    pm_is fs o m (cached_pm c o fs m)
+          (analyze S (src_of fs) o (ienv (env ++ map (fun x => (x, cached_pm c o fs x)) S)) m).
   Proof.
-    intros c o fs L1 S L2 env ext HC HP HFS HL Hdom Hext HCl m s d Hm Hs Hd HG.
-    destruct (step_facts _ _ _ _ _ _ _ HFS HL Hdom) as [SinG [Sdisj [SND Stopo]]].
-    rewrite map_app, Hext in *. apply in_app_or in Hm as [Hm|Hm].
-    - apply in_or_app; left. eapply HCl; eauto.
-    - eapply Stopo; eauto. unfold Model.direct_deps. apply found_In. split; auto.
-      eapply imports_in_cands; eauto.
+    intros K c o fs L1 S L2 env m HC HP HSF HFS HL Hdom HG D1 HF Hm.
+    destruct (step_facts _ _ _ _ _ _ _ _ HC HP HFS HL Hdom) as [SinG [Sdisj [SND [Stopo Sdir]]]].
+    set (env' := env ++ map (fun x0 => (x0, cached_pm c o fs x0)) S).
+    assert (D2 : DomG fs env') by (apply domG_app; auto).
+    assert (InL : In S (sccs_of (depmap c o fs))) by (rewrite HL; apply in_or_app; right; left; auto).
+    assert (ALLV : forall x, In x S -> load_meta c o fs x <> None).
+    { intros x Hx. destruct (fresh_parts _ _ _ _ _ _ _ HF Hx) as [F1 _].
+      destruct (is_fresh_spec _ _ _ _ F1) as [e0 [x0 [L0 _]]]. congruence. }
+    destruct (fresh_parts _ _ _ _ _ _ _ HF Hm) as [F1 _].
+    destruct (is_fresh_spec _ _ _ _ F1) as [e [x [L _]]].
+    destruct (load_ok _ _ _ _ _ _ _ HC L) as [s [d [Hs [Hme [Hx [Hd [Ho [Hh [Hdi [EOK [_ Hig]]]]]]]]]]].
+    pose proof (HSF S InL ALLV m e x Hm L) as EQS.
+    (* all members carry the same call *)
+    assert (SAME : forall m1 e1 x1, In m1 S -> load_meta c o fs m1 = Some (e1, x1) ->
+                     m_gen e1 = m_gen e /\ m_scc e1 = m_scc e).
+    { intros m1 e1 x1 Hm1 L1'. destruct (load_ok _ _ _ _ _ _ _ HC L1') as [s1 [d1 [_ [Hme1 _]]]].
+      pose proof (HSF S InL ALLV m1 e1 x1 Hm1 L1') as EQ1.
+      destruct HC as [_ [_ [G2 G3]]].
+      assert (m_gen e <= m_gen e1) by (eapply G2; eauto; apply EQS; auto).
+      assert (m_gen e1 <= m_gen e) by (eapply G2; eauto; apply EQ1; auto).
+      assert (m_gen e = m_gen e1) by lia. split; auto. eapply G3; eauto. apply EQS; auto. }
+    unfold EntryOK in EOK. simpl in EOK.
+    destruct EOK as [A1 [A2 [A3 [A4 [A5 [A6 _]]]]]].
+    set (S0 := m_scc e) in *. set (src0 := fst (K (m_gen e) S0)) in *. set (env0 := snd (K (m_gen e) S0)) in *.
+    rewrite Ho in *.
+    assert (CALL : analyze S0 src0 o env0 m = analyze S (src_of fs) o (ienv env') m).
+    { apply an_ext; auto.
+      - (* sources *)
+        intros y Hy. apply EQS in Hy. destruct (fresh_parts _ _ _ _ _ _ _ HF Hy) as [Fy _].
+        destruct (is_fresh_spec _ _ _ _ Fy) as [ey [xy [Ly _]]].
+        destruct (load_ok _ _ _ _ _ _ _ HC Ly) as [sy [dy [Hsy [_ [_ [_ [_ [Hhy [_ [EOKy _]]]]]]]]]].
+        destruct (SAME _ _ _ Hy Ly) as [Gy Sy]. unfold EntryOK in EOKy. simpl in EOKy. rewrite Gy, Sy in EOKy.
+        destruct EOKy as [_ [B2 _]]. fold S0 in B2. fold src0 in B2. rewrite (src_of_eq _ _ _ Hsy). congruence.
+      - (* lower interfaces *)
+        intros m1 d0 Hm1 [HnS [Hrd|Hrd]].
+        + apply EQS in Hm1.
+          destruct (fresh_parts _ _ _ _ _ _ _ HF Hm1) as [G1 [G2 G3]].
+          destruct (is_fresh_spec _ _ _ _ G1) as [e1 [x1 [L1' [Hall Hsupp]]]].
+          destruct (load_ok _ _ _ _ _ _ _ HC L1') as [s1 [d1 [Hs1 [_ [_ [_ [Ho1 [Hh1 [_ [EOK1 _]]]]]]]]]].
+          destruct (SAME _ _ _ Hm1 L1') as [Gy Sy]. unfold EntryOK in EOK1. simpl in EOK1. rewrite Gy, Sy, Ho1 in EOK1.
+          fold S0 in EOK1. fold src0 in EOK1. fold env0 in EOK1.
+          destruct EOK1 as [_ [B2 [_ [_ [_ [_ [B7 [_ [B9 [B10 [B11 [B12 [B13 B14]]]]]]]]]]]]].
+          assert (AG : forall d1', In d1' (m_deps e1 ++ x_deps x1) -> ~ In d1' S0 ->
+                        In d1' (m_deps e1) \/ In d1' (r_indirect (analyze S0 src0 o env0 m1)) ->
+                        env0 d1' = ienv env' d1').
+          { intros dd Hdd HnS' HR. destruct (combine_In_ex _ _ dd B11 Hdd) as [h Hh0]. rewrite (B10 _ _ Hh0 HnS').
+            unfold Model.dep_hashes_ok in G2. rewrite L1' in G2. rewrite forallb_forall in G2. specialize (G2 _ Hh0).
+            simpl in G2. rewrite (Hall _ Hdd) in G2. simpl in G2. apply Nat.eqb_eq in G2. unfold Model.cur_hash in G2.
+            assert (InE : In dd (map fst env)).
+            { assert (NS : ~ In dd S) by (intro; apply HnS'; apply EQS; auto).
+              assert (DIR : In dd (m_deps e1) -> In dd (map fst env)).
+              { intros A. assert (In dd (map fst env ++ S)).
+                { eapply Stopo; eauto. unfold Model.direct_deps, Model.cands. rewrite L1'. apply found_In. split.
+                  apply in_or_app; auto. apply Hall. apply in_or_app; auto. }
+                apply in_app_or in H as [H|H]; tauto. }
+              destruct HR as [HRd|HRi]; auto.
+              apply in_app_or in Hdd as [Hdd|Hdd]; auto.
+              assert (In dd (concat L1 ++ S)).
+              { unfold Model.trans_ok in G3. rewrite L1' in G3. apply orb_true_iff in G3 as [FT|G3].
+                - apply Nat.eqb_eq in FT. eapply reach_before; eauto.
+                - rewrite forallb_forall in G3. specialize (G3 _ Hdd).
+                  apply orb_true_iff in G3 as [G3|G3]. apply mem_In in G3. apply in_or_app; auto.
+                  eapply reach_before; eauto. }
+              rewrite <- Hdom in H. apply in_app_or in H as [H|H]; tauto. }
+            destruct (lookup_dom _ _ _ InE) as [q Hq]. rewrite Hq in G2.
+            unfold env'. rewrite (ienv_app_l env _ dd InE). unfold ienv. rewrite Hq. simpl.
+            rewrite <- (env_hash fs o L1 env dd q HG Hdom Hq). congruence. }
+          rewrite B2, Hh1 in Hrd. rewrite Hh1 in B7, B13.
+          apply in_app_or in Hrd as [Hi|Hp].
+          * apply B7 in Hi. apply in_app_or in Hi as [Hi|Hi].
+            -- apply AG; auto. apply in_or_app; auto.
+            -- rewrite (B12 _ Hi). symmetry. apply (ienv_none fs env' d0 D2).
+               destruct (inG fs d0) eqn:G; auto. assert (In d0 (found fs (m_supp e1))) by (apply found_In; auto).
+               rewrite Hsupp in H. inversion H.
+          * destruct (inG fs d0) eqn:G.
+            -- assert (In d0 (m_deps e1)) by (eapply HP; eauto). apply AG; auto. apply in_or_app; auto.
+            -- destruct (B13 _ Hp) as [X|X]. apply AG; auto. apply in_or_app; auto.
+               rewrite X. symmetry. apply (ienv_none fs env' d0 D2); auto.
+        + apply EQS in Hm1.
+          destruct (fresh_parts _ _ _ _ _ _ _ HF Hm1) as [G1 [G2 G3]].
+          destruct (is_fresh_spec _ _ _ _ G1) as [e1 [x1 [L1' [Hall Hsupp]]]].
+          destruct (load_ok _ _ _ _ _ _ _ HC L1') as [s1 [d1 [Hs1 [_ [_ [_ [Ho1 [Hh1 [_ [EOK1 _]]]]]]]]]].
+          destruct (SAME _ _ _ Hm1 L1') as [Gy Sy]. unfold EntryOK in EOK1. simpl in EOK1. rewrite Gy, Sy, Ho1 in EOK1.
+          fold S0 in EOK1. fold src0 in EOK1. fold env0 in EOK1.
+          destruct EOK1 as [_ [B2 [_ [_ [_ [_ [B7 [_ [B9 [B10 [B11 [B12 [B13 B14]]]]]]]]]]]]].
+          pose proof (B9 _ Hrd) as Hdd.
+          destruct (combine_In_ex _ _ d0 B11 Hdd) as [h Hh0]. rewrite (B10 _ _ Hh0 HnS).
+          unfold Model.dep_hashes_ok in G2. rewrite L1' in G2. rewrite forallb_forall in G2. specialize (G2 _ Hh0).
+          simpl in G2. rewrite (Hall _ Hdd) in G2. simpl in G2. apply Nat.eqb_eq in G2. unfold Model.cur_hash in G2.
+          assert (InE : In d0 (map fst env)).
+          { assert (NS : ~ In d0 S) by (intro; apply HnS; apply EQS; auto).
+            apply in_app_or in Hdd as [Hdd|Hdd].
+            - assert (In d0 (map fst env ++ S)).
+              { eapply Stopo; eauto. unfold Model.direct_deps, Model.cands. rewrite L1'. apply found_In. split.
+                apply in_or_app; auto. apply Hall. apply in_or_app; auto. }
+              apply in_app_or in H as [H|H]; tauto.
+            - assert (In d0 (concat L1 ++ S)).
+              { unfold Model.trans_ok in G3. rewrite L1' in G3. apply orb_true_iff in G3 as [FT|G3].
+                - apply Nat.eqb_eq in FT. eapply reach_before; eauto.
+                - rewrite forallb_forall in G3. specialize (G3 _ Hdd).
+                  apply orb_true_iff in G3 as [G3|G3]. apply mem_In in G3. apply in_or_app; auto.
+                  eapply reach_before; eauto. }
+              rewrite <- Hdom in H. apply in_app_or in H as [H|H]; tauto. }
+          destruct (lookup_dom _ _ _ InE) as [q Hq]. rewrite Hq in G2.
+          unfold env'. rewrite (ienv_app_l env _ d0 InE). unfold ienv. rewrite Hq. simpl.
+          rewrite <- (env_hash fs o L1 env d0 q HG Hdom Hq). congruence. }
+    exists s. split; auto. rewrite (cached_pm_eq _ _ _ _ _ _ _ _ L Hd Hs). simpl. fold env'. rewrite <- CALL.
+    split; [congruence|]. split; [|congruence].
+    destruct (ign_of m s o) eqn:IG; auto. rewrite A6.
+    destruct (m_ignore_all e) eqn:MI; auto. specialize (Hig eq_refl). discriminate.
+  Qed.
+  (* ---- the entry written for a re-analysed module *)
+  Notation new_meta := (Model.new_meta content_of imports probes sdo_of thash ign_of).
+  Notation new_ex := (Model.new_ex content_of imports probes ign_of).
+
+  Definition env0_of (c : store) (o : opts) (fs : FS) (env env' : penv) : modid -> option ihash :=
+    fun d => match lookup env d with
+             | Some q => Some (p_iface q)
+             | None => if inG fs d then Some (cur_hash c o env' d) else None
+             end.
+  Definition add_call (K : calls) (now : nat) (S : list modid) (v : (modid -> content) * (modid -> option ihash)) : calls :=
+    fun g S' => if Nat.eqb g now && list_eqb S' S then v else K g S'.
+
+  Lemma add_call_same : forall K now S v, add_call K now S v now S = v.
+  Proof. intros. unfold add_call. rewrite Nat.eqb_refl, list_eqb_refl. auto. Qed.
+  Lemma add_call_other : forall K now S v g S', ~ (g = now /\ S' = S) -> add_call K now S v g S' = K g S'.
+  Proof.
+    intros. unfold add_call. destruct (Nat.eqb g now) eqn:E1; simpl; auto.
+    destruct (list_eqb S' S) eqn:E2; auto. exfalso. apply H. apply Nat.eqb_eq in E1. apply list_eqb_eq in E2. auto.
   Qed.
 
-  Lemma good_step : forall c o fs L1 S L2 (env : penv) (f : modid -> pm),
-    FSOK fs -> sccs_of (depmap c o fs) = L1 ++ S :: L2 -> map fst env = concat L1 ->
-    Good fs o env -> Closed fs o env ->
-    (forall m, In m S -> exists s, lookup fs m = Some s /\
-       let r := check m (content_of m s) o (ienv (env ++ map (fun x => (x, f x)) S)) in
-       p_iface (f m) = r_iface r /\ p_errors (f m) = (if ign_of m s o then [] else r_errors r) /\ p_hash (f m) = p_iface (f m)) ->
-    Good fs o (env ++ map (fun x => (x, f x)) S).
+  Lemma new_entry_ok : forall K c o fs L1 S L2 (env : penv) m s now dmt,
+    StoreOK K c -> ProbeFresh c o fs -> FSOK fs -> sccs_of (depmap c o fs) = L1 ++ S :: L2 -> map fst env = concat L1 ->
+    GoodS fs o L1 env -> DomG fs env -> In m S -> lookup fs m = Some s -> blocker m (content_of m s) = false ->
+    let R := analyze S (src_of fs) o (ienv env) in
+    let env' := env ++ map (fun x => (x, fresh_pm fs o R x)) S in
+    forall Kb, EntryOK (add_call Kb now S (src_of fs, env0_of c o fs env env')) m
+            (new_meta c o fs now (depmap c o fs) S env' R m s dmt) (new_ex c o fs env' R m s).
   Proof.
-    intros c o fs L1 S L2 env f HFS HL Hdom HG HCl Hnew m p Hp.
-    destruct (step_facts _ _ _ _ _ _ _ HFS HL Hdom) as [SinG [Sdisj [SND Stopo]]].
-    destruct (lookup env m) as [q|] eqn:Q.
-    - erewrite lookup_app_l in Hp by eauto. inversion Hp; subst q.
-      eapply good_extend; eauto. intros d Hd. rewrite map_map in Hd; simpl in Hd. rewrite map_id in Hd. auto.
-    - rewrite lookup_app_r in Hp by auto.
-      assert (In m S).
-      { apply lookup_Some_dom in Hp. rewrite map_map in Hp; simpl in Hp. rewrite map_id in Hp. auto. }
-      rewrite (lookup_map_fn _ f S m H) in Hp. inversion Hp; subst p. auto.
-  Qed.
-  (* ---- the cache entry written for a re-analysed module satisfies EntryOK *)
-  Lemma ienv_dom : forall fs o (env : penv) d, Good fs o env -> ienv env d <> None -> In d (map fst env) /\ inG fs d = true.
-  Proof.
-    intros. unfold ienv in H0. destruct (lookup env d) eqn:Q; simpl in H0; try congruence.
-    apply lookup_Some_dom in Q. split; auto. eapply good_dom; eauto.
-  Qed.
-
-  Lemma new_entry_ok : forall c o fs (env' : penv) m s (R : modid -> result) dmt dm,
-    CacheOK c -> ProbeFresh c o fs -> Good fs o env' -> Closed fs o env' -> In m (map fst env') -> lookup fs m = Some s ->
-    R m = check m (content_of m s) o (ienv env') -> blocker m (content_of m s) = false ->
-    (forall d, In d (r_indirect (R m)) -> reach dm m d = true) ->
-    EntryOK m
-      {| m_stamp := s; m_hash := content_of m s; m_deps := direct_deps c o fs m s; m_supp := supp_deps c o fs m s;
-         m_snap := o_snap o; m_version := o_version o; m_plugin := o_plugin o;
-         m_sdo := sdo_of (supp_deps c o fs m s) o; m_ihash := r_iface (R m);
-         m_dep_hashes := map (cur_hash c o env') (direct_deps c o fs m s); m_thash := thash dm m;
-         m_ignore_all := ign_of m s o;
-         m_data_mtime := dmt |}
-      {| x_deps := new_indirect c o fs m s (R m);
-         x_dep_hashes := map (cur_hash c o env') (new_indirect c o fs m s (R m));
-         x_errors := if ign_of m s o then [] else r_errors (R m) |}.
-  Proof.
-    intros c o fs env' m s R dmt dm HC HP HG HCl Hm Hs HR HNB HRch.
-    set (deps := direct_deps c o fs m s). set (supp := supp_deps c o fs m s).
-    set (ind := new_indirect c o fs m s (R m)).
+    intros K c o fs L1 S L2 env m s now dmt HC HP HFS HL Hdom HG D1 Hm Hs HNB R env' Kb.
+    destruct (step_facts _ _ _ _ _ _ _ _ HC HP HFS HL Hdom) as [SinG [Sdisj [SND [Stopo Sdir]]]].
+    assert (InL : In S (sccs_of (depmap c o fs))) by (rewrite HL; apply in_or_app; right; left; auto).
+    unfold EntryOK. simpl. rewrite add_call_same. simpl.
+    assert (EO : {| o_snap := o_snap o; o_version := o_version o; o_plugin := o_plugin o |} = o) by (destruct o; auto).
+    unfold eo; simpl. rewrite EO.
+    set (env0 := env0_of c o fs env env').
+    assert (CALL : forall y, In y S -> analyze S (src_of fs) o env0 y = R y).
+    { intros y Hy. unfold R. symmetry. apply an_ext; auto; try tauto.
+      intros m1 d Hm1 [HnS [Hd|Hd]]; unfold env0, env0_of, ienv.
+      - destruct (proj1 (inG_lookup fs m1) (SinG _ Hm1)) as [s1 Hs1]. rewrite (src_of_eq _ _ _ Hs1) in Hd.
+        destruct (inG fs d) eqn:G.
+        + assert (In d (map fst env)) by (eapply Sdir; eauto). apply lookup_dom in H as [q Hq]. rewrite Hq. auto.
+        + assert (lookup env d = None). { apply lookup_None. intro X. apply D1 in X. congruence. }
+          rewrite H. auto.
+      - destruct (an_indirect_dom _ _ _ _ _ _ Hm1 Hd) as [X|X]; [tauto|].
+        unfold ienv in X. destruct (lookup env d) eqn:Q; simpl in X; try congruence. auto. }
+    rewrite (CALL m Hm).
+    set (deps := direct_deps c o fs m s). set (ind := new_indirect c o fs m s (R m)).
+    assert (INDIR : forall d, In d (r_indirect (R m)) -> inG fs d = true).
+    { intros d Hd. destruct (an_indirect_dom _ _ _ _ _ _ Hm Hd) as [X|X]. auto.
+      unfold ienv in X. destruct (lookup env d) eqn:Q; simpl in X; try congruence. apply D1. eapply lookup_Some_dom; eauto. }
     assert (INDG : forall d, In d ind -> inG fs d = true).
     { intros d Hd. unfold ind, Model.new_indirect in Hd. apply in_app_or in Hd as [Hd|Hd].
       - unfold Model.old_indirect in Hd. destruct (load_meta c o fs m) as [[e x]|]; simpl in Hd; try tauto.
         apply found_In in Hd; tauto.
-      - apply filter_In in Hd as [Hd _]. rewrite HR in Hd. apply check_indirect_dom in Hd.
-        eapply ienv_dom; eauto. }
-    assert (DEPG : forall d, In d deps -> inG fs d = true).
-    { intros d Hd. apply found_In in Hd; tauto. }
-    split; [split; [reflexivity|exact HNB]|]. simpl.
-    exists (fun d => match lookup env' d with
-                     | Some q => Some (p_iface q)
-                     | None => if mem d (deps ++ ind) then Some (cur_hash c o env' d) else None end).
-    assert (EO : {| o_snap := o_snap o; o_version := o_version o; o_plugin := o_plugin o |} = o) by (destruct o; auto).
-    unfold eo; simpl. rewrite EO.
-    match goal with |- context [check m (content_of m s) o ?E] => set (envm := E) end.
-    assert (CE : check m (content_of m s) o envm = R m).
-    { rewrite HR. symmetry. apply check_reads. intros d Hd. unfold envm, ienv.
-      destruct (lookup env' d) eqn:Q; auto. simpl.
-      assert (NG : inG fs d = false).
-      { destruct Hd as [Hd|Hd].
-        - destruct (inG fs d) eqn:G; auto. exfalso. apply lookup_None in Q. apply Q. eapply HCl; eauto.
-        - apply check_indirect_dom in Hd. unfold ienv in Hd. rewrite Q in Hd. simpl in Hd. congruence. }
-      destruct (mem d (deps ++ ind)) eqn:M; auto. apply mem_In in M. apply in_app_or in M as [M|M].
-      apply DEPG in M; congruence. apply INDG in M; congruence. }
-    rewrite CE. split; [auto|]. split; [auto|]. split.
-    { intros d Hd. unfold Model.direct_deps, Model.supp_deps.
-      apply in_or_app. destruct (inG fs d) eqn:G.
-      - left; apply found_In; split; auto. eapply imports_in_cands; eauto. apply in_or_app; auto.
-      - right; apply notfound_In; split; auto. eapply hard_in_cands; eauto. }
+      - apply filter_In in Hd as [Hd _]. auto. }
+    assert (DEPG : forall d, In d deps -> inG fs d = true). { intros d Hd. apply found_In in Hd; tauto. }
+    assert (NONE : forall d, inG fs d = false -> env0 d = None).
+    { intros d Hd. unfold env0, env0_of. rewrite Hd. destruct (lookup env d) eqn:Q; auto.
+      apply lookup_Some_dom in Q. apply D1 in Q. congruence. }
+    split; [auto|]. split; [apply src_of_eq; auto|]. split; [auto|]. split; [auto|]. split; [auto|]. split; [auto|].
     split.
-    { intros d Hd. apply in_or_app.
-      assert (DG : inG fs d = true). { rewrite HR in Hd. apply check_indirect_dom in Hd. eapply ienv_dom; eauto. }
+    { intros d Hd. unfold Model.supp_deps. apply in_or_app. destruct (inG fs d) eqn:G.
+      - left. eapply direct_deps_spec; eauto. split; auto. apply in_or_app; auto.
+      - right. apply notfound_In; split; auto. eapply hard_in_cands; eauto. }
+    split.
+    { intros d Hd. apply in_app_or in Hd as [Hd|Hd].
+      - eapply direct_deps_spec in Hd; eauto. tauto.
+      - unfold Model.supp_deps in Hd. apply notfound_In in Hd as [Hd _]. eapply hard_sub; eauto. }
+    split.
+    { intros d Hd. apply in_or_app. pose proof (INDIR d Hd) as DG.
       destruct (mem d (cands c o fs m s)) eqn:M1.
       - left. apply found_In. split; auto. apply mem_In; auto.
       - right. unfold ind, Model.new_indirect. apply in_or_app.
         destruct (mem d (old_indirect c o fs m)) eqn:M2. left; apply mem_In; auto.
         right. apply filter_In. split; auto. rewrite M1, M2. simpl.
-        destruct (Nat.eqb d m) eqn:E; auto. apply Nat.eqb_eq in E; subst d. exfalso.
-        rewrite HR in Hd. eapply indirect_noself; eauto. }
+        destruct (Nat.eqb d m) eqn:E; auto. apply Nat.eqb_eq in E; subst d. exfalso. eapply an_noself; eauto. }
     split.
-    { intros d h Hdh. rewrite <- map_app in Hdh. apply combine_map_In in Hdh as [Hh Hd]. subst h.
-      unfold envm. destruct (lookup env' d) eqn:Q.
-      - unfold Model.cur_hash. rewrite Q. destruct (HG _ _ Q) as [_ [_ [_ [_ Hq]]]]. congruence.
-      - apply mem_In in Hd. rewrite Hd. auto. }
+    { intros d h Hdh HnS. rewrite <- map_app in Hdh. apply combine_map_In in Hdh as [Hh Hd]. subst h.
+      unfold env0, env0_of. destruct (lookup env d) eqn:Q.
+      - unfold Model.cur_hash. unfold env'. erewrite lookup_app_l by eauto.
+        rewrite (env_hash fs o L1 env d p HG Hdom Q). auto.
+      - assert (inG fs d = true). { apply in_app_or in Hd as [Hd|Hd]; auto. }
+        rewrite H. auto. }
+    split. { rewrite <- map_app. apply map_length. }
+    split. { intros d Hd. apply notfound_In in Hd as [_ Hd]. apply NONE; auto. }
     split.
-    { rewrite <- map_app. apply map_length. }
-    assert (NONE : forall d, inG fs d = false -> envm d = None).
-    { intros d Hd. unfold envm. destruct (lookup env' d) eqn:Q.
-      - apply lookup_Some_dom in Q. apply (good_dom fs o) in Q; auto. congruence.
-      - destruct (mem d (deps ++ ind)) eqn:M; auto. apply mem_In in M. apply in_app_or in M as [M|M].
-        apply DEPG in M; congruence. apply INDG in M; congruence. }
-    split.
-    { intros d Hd. apply notfound_In in Hd as [_ Hd]. apply NONE; auto. }
-    split.
-    { intros d Hd. destruct (inG fs d) eqn:G; [|right; apply NONE; auto]. left. apply found_In; split; auto.
-      eapply imports_in_cands; eauto. apply in_or_app; auto. }
-    { intros dm' d Heq Hd. rewrite (thash_reach dm' dm m Heq). apply HRch. exact Hd. }
+    { intros d Hd. destruct (inG fs d) eqn:G; [|right; apply NONE; auto]. left.
+      eapply direct_deps_spec; eauto. split; auto. apply in_or_app; auto. }
+    { intros dm' d Heq Hd. simpl in Heq. rewrite (thash_reach dm' (depmap c o fs) m Heq).
+      eapply indirect_reach; eauto. }
   Qed.
-  (* ---- writing the cache records of one module *)
+  Lemma entry_K_irrel : forall K1 K2 m e x, K1 (m_gen e) (m_scc e) = K2 (m_gen e) (m_scc e) ->
+    EntryOK K1 m e x -> EntryOK K2 m e x.
+  Proof. intros K1 K2 m e x H. unfold EntryOK. rewrite H. auto. Qed.
+
+  (* ---- writing the cache records of one module / of one SCC *)
   Definition same_at (c1 c2 : store) (m : modid) : Prop :=
     s_meta c1 m = s_meta c2 m /\ s_ex c1 m = s_ex c2 m /\ s_data c1 m = s_data c2 m.
+  Definition written_at (c : store) (o : opts) (fs : FS) (now : nat) dm (S : list modid) (env' : penv)
+             (R : modid -> result) (cf : store) (m : modid) (s : stamp) : Prop :=
+    (s_meta cf m = None /\ s_ex cf m = None) \/
+    (exists d, s_data cf m = Some d /\ d_iface d = r_iface (R m) /\
+               s_meta cf m = Some (new_meta c o fs now dm S env' R m s (d_mtime d)) /\
+               s_ex cf m = Some (new_ex c o fs env' R m s)).
 
   Lemma upd_same : forall A (f : modid -> option A) m v, upd f m v m = v.
   Proof. intros; unfold upd. rewrite Nat.eqb_refl; auto. Qed.
   Lemma upd_other : forall A (f : modid -> option A) m v m', m' <> m -> upd f m v m' = f m'.
   Proof. intros; unfold upd. apply Nat.eqb_neq in H. rewrite H; auto. Qed.
 
-  Lemma write_module_spec : forall c o fs now dm (env' : penv) (R : modid -> result) c' m s,
-    CacheOK c -> ProbeFresh c o fs -> CacheOK c' -> s_data c' m = s_data c m ->
-    Good fs o env' -> Closed fs o env' -> In m (map fst env') -> lookup fs m = Some s ->
-    R m = check m (content_of m s) o (ienv env') -> blocker m (content_of m s) = false ->
-    (forall d, In d (r_indirect (R m)) -> reach dm m d = true) ->
-    CacheOK (write_module c o fs now dm env' R c' m) /\
-    (forall m', m' <> m -> same_at (write_module c o fs now dm env' R c' m) c' m').
+  Lemma write_module_char : forall K c o fs now dm S (env' : penv) (R : modid -> result) c' m s,
+    StoreOK K c -> s_data c' m = s_data c m -> lookup fs m = Some s -> r_iface (R m) <> 0 ->
+    (forall m', m' <> m -> same_at (write_module c o fs now dm S env' R c' m) c' m') /\
+    written_at c o fs now dm S env' R (write_module c o fs now dm S env' R c' m) m s.
   Proof.
-    intros c o fs now dm env' R c' m s HC HP HC' Hdata HG HCl Hm Hs HR HNB HRch.
-    unfold Model.write_module. rewrite Hs.
+    intros K c o fs now dm S env' R c' m s HC Hdata Hs HNZ. unfold Model.write_module. rewrite Hs.
     set (old_h := match find_cache_meta c o m with Some (e, _) => m_ihash e | None => 0 end).
     assert (OLD : old_h = r_iface (R m) -> forall d, s_data c m = Some d -> d_iface d = r_iface (R m)).
     { intros E d Hd. unfold old_h in E. destruct (find_cache_meta c o m) as [[e1 x1]|] eqn:F.
-      - apply find_spec in F as [F1 _]. destruct HC as [_ C2]. rewrite <- E. eapply C2; eauto.
-      - exfalso. rewrite HR in E. symmetry in E. eapply iface_nonzero; eauto. }
-    assert (DEL : CacheOK (del_entry c' m)).
-    { destruct HC' as [C1 C2]. split; simpl.
-      - intros m0 e0 x0 H1 H2. destruct (Nat.eq_dec m0 m) as [->|N].
-        + rewrite upd_same in H1. discriminate.
-        + rewrite upd_other in H1, H2 by auto. eauto.
-      - intros m0 e0 d0 H1 H2. destruct (Nat.eq_dec m0 m) as [->|N].
-        + rewrite upd_same in H1. discriminate.
-        + rewrite upd_other in H1 by auto. eauto. }
+      - apply find_spec in F as [F1 _]. destruct HC as [_ [C2 _]]. rewrite <- E. eapply C2; eauto.
+      - exfalso. auto. }
     destruct (Nat.eqb old_h (r_iface (R m))) eqn:E.
     - apply Nat.eqb_eq in E. simpl. destruct (s_data c' m) as [d|] eqn:D.
       + split.
-        * destruct HC' as [C1 C2]. split; simpl.
-          { intros m0 e0 x0 H1 H2. destruct (Nat.eq_dec m0 m) as [->|N].
-            - rewrite upd_same in H1, H2. inversion H1; inversion H2; subst. eapply new_entry_ok; eauto.
-            - repeat (rewrite upd_other in H1 by auto); repeat (rewrite upd_other in H2 by auto). eauto. }
-          { intros m0 e0 d0 H1 H2. destruct (Nat.eq_dec m0 m) as [->|N].
-            - rewrite upd_same in H1. inversion H1; subst; simpl. apply OLD; auto. congruence.
-            - repeat (rewrite upd_other in H1 by auto). eauto. }
         * intros m' N. unfold same_at; simpl. rewrite !upd_other by auto. auto.
-      + split; auto. intros m' N; unfold same_at; simpl. rewrite !upd_other by auto. auto.
+        * right. exists d. simpl. rewrite !upd_same. repeat split; auto; try (apply OLD; auto; congruence).
+      + split.
+        * intros m' N. unfold same_at; simpl. rewrite !upd_other by auto. auto.
+        * left. simpl. rewrite !upd_same. auto.
     - simpl. rewrite upd_same. split.
-      + destruct HC' as [C1 C2]. split; simpl.
-        { intros m0 e0 x0 H1 H2. destruct (Nat.eq_dec m0 m) as [->|N].
-          - rewrite upd_same in H1, H2. inversion H1; inversion H2; subst. eapply new_entry_ok; eauto.
-          - repeat (rewrite upd_other in H1 by auto); repeat (rewrite upd_other in H2 by auto). eauto. }
-        { intros m0 e0 d0 H1 H2. destruct (Nat.eq_dec m0 m) as [->|N].
-          - rewrite upd_same in H1, H2. inversion H1; inversion H2; subst; simpl. auto.
-          - repeat (rewrite upd_other in H1 by auto); repeat (rewrite upd_other in H2 by auto). eauto. }
       + intros m' N. unfold same_at; simpl. rewrite !upd_other by auto. auto.
+      + right. exists {| d_iface := r_iface (R m); d_mtime := now |}. simpl. rewrite !upd_same. auto.
   Qed.
 
-  Lemma write_fold_spec : forall c o fs now dm (env' : penv) (R : modid -> result) S c',
-    CacheOK c -> ProbeFresh c o fs -> CacheOK c' -> NoDup S -> (forall m, In m S -> s_data c' m = s_data c m) ->
-    Good fs o env' -> Closed fs o env' ->
-    (forall m, In m S -> In m (map fst env') /\ exists s, lookup fs m = Some s /\ R m = check m (content_of m s) o (ienv env') /\
-                                                          blocker m (content_of m s) = false /\
-                                                          (forall d, In d (r_indirect (R m)) -> reach dm m d = true)) ->
-    CacheOK (fold_left (write_module c o fs now dm env' R) S c') /\
-    (forall m', ~ In m' S -> same_at (fold_left (write_module c o fs now dm env' R) S c') c' m').
+  Lemma write_fold_char : forall K c o fs now dm S (env' : penv) (R : modid -> result) S' c',
+    StoreOK K c -> NoDup S' -> (forall m, In m S' -> s_data c' m = s_data c m) ->
+    (forall m, In m S' -> (exists s, lookup fs m = Some s) /\ r_iface (R m) <> 0) ->
+    let cf := fold_left (write_module c o fs now dm S env' R) S' c' in
+    (forall m', ~ In m' S' -> same_at cf c' m') /\
+    (forall m s, In m S' -> lookup fs m = Some s -> written_at c o fs now dm S env' R cf m s).
   Proof.
-    intros c o fs now dm env' R S. induction S as [|m S IH]; simpl; intros c' HC HP HC' ND Hd HG HCl HS.
-    - split; auto. intros; unfold same_at; auto.
-    - inversion ND; subst. destruct (HS m (or_introl eq_refl)) as [Hm [s [Hs [HR [HNB HRch]]]]].
-      destruct (write_module_spec c o fs now dm env' R c' m s HC HP HC' (Hd _ (or_introl eq_refl)) HG HCl Hm Hs HR HNB HRch) as [W1 W2].
-      destruct (IH (write_module c o fs now dm env' R c' m)) as [I1 I2]; auto.
-      + intros m0 Hm0. assert (m0 <> m) by (intro; subst; auto). destruct (W2 _ H) as [_ [_ W]]. rewrite W. auto.
-      + split; auto. intros m' Hm'. assert (m' <> m) by (intro; subst; auto).
-        destruct (I2 m') as [A1 [A2 A3]]; auto. destruct (W2 _ H) as [B1 [B2 B3]]. unfold same_at. repeat split; congruence.
+    intros K c o fs now dm S env' R S'. induction S' as [|m t IH]; simpl; intros c' HC ND Hd HS.
+    - split. intros; unfold same_at; auto. intros; tauto.
+    - inversion ND; subst. destruct (HS m (or_introl eq_refl)) as [[s Hs] HNZ].
+      destruct (write_module_char K c o fs now dm S env' R c' m s HC (Hd _ (or_introl eq_refl)) Hs HNZ) as [W1 W2].
+      destruct (IH (write_module c o fs now dm S env' R c' m)) as [I1 I2]; auto.
+      { intros m0 Hm0. assert (m0 <> m) by (intro; subst; auto). destruct (W1 _ H) as [_ [_ W]]. rewrite W. auto. }
+      split.
+      + intros m' Hm'. assert (m' <> m) by (intro; subst; auto).
+        destruct (I1 m') as [A1 [A2 A3]]; auto. destruct (W1 _ H) as [B1 [B2 B3]]. unfold same_at. repeat split; congruence.
+      + intros m0 s0 [<-|Hm0] Hs0.
+        * rewrite Hs in Hs0; inversion Hs0; subst s0. destruct (I1 m H1) as [A1 [A2 A3]].
+          unfold written_at in *. rewrite A1, A2, A3. exact W2.
+        * apply I2; auto.
   Qed.
-
   (* ---- the invariant of the SCC loop *)
-  Definition Inv (c : store) (fs : FS) (o : opts) (done : list (list modid)) (st : penv * store) : Prop :=
-    map fst (fst st) = concat done /\ Good fs o (fst st) /\ Closed fs o (fst st) /\ CacheOK (snd st) /\
-    (forall m, ~ In m (concat done) -> s_data (snd st) m = s_data c m).
-
   Definition NB (fs : FS) : Prop := forall m s, lookup fs m = Some s -> blocker m (content_of m s) = false.
+  Definition RunGen (now : nat) (L1 : list (list modid)) (c' : store) : Prop :=
+    forall m0 e0, s_meta c' m0 = Some e0 ->
+      m_gen e0 < now \/ (m_gen e0 = now /\ In (m_scc e0) L1 /\ In m0 (m_scc e0)).
+  Definition Inv (c : store) (fs : FS) (o : opts) (now : nat) (done : list (list modid)) (st : penv * store) : Prop :=
+    map fst (fst st) = concat done /\ GoodS fs o done (fst st) /\ DomG fs (fst st) /\ Closed fs o (fst st) /\
+    CacheOK (snd st) /\ (forall m, ~ In m (concat done) -> s_data (snd st) m = s_data c m) /\ RunGen now done (snd st).
 
-  Lemma process_scc_inv : forall c o fs now L1 S L2 st,
-    CacheOK c -> ProbeFresh c o fs -> FSOK fs -> NB fs -> sccs_of (depmap c o fs) = L1 ++ S :: L2 ->
-    Inv c fs o L1 st -> Inv c fs o (L1 ++ [S]) (process_scc c o fs now (depmap c o fs) st S).
+  Lemma closed_step : forall fs o (env ext : penv) S,
+    Closed fs o env -> map fst ext = S ->
+    (forall m1 s1 d, In m1 S -> lookup fs m1 = Some s1 ->
+       In d (imports m1 (content_of m1 s1) o ++ probes m1 (content_of m1 s1) o) -> inG fs d = true -> ~ In d S ->
+       In d (map fst env)) ->
+    Closed fs o (env ++ ext).
   Proof.
-    intros c o fs now L1 S L2 [env c'] HC HP HFS HNB HL [Hdom [HG [HCl [HC' Hfr]]]]. simpl in *.
-    destruct (step_facts _ _ _ _ _ _ _ HFS HL Hdom) as [SinG [Sdisj [SND Stopo]]].
+    intros fs o env ext S HCl Hext Sdir m s d Hm Hs Hd HG. rewrite map_app, Hext in *.
+    apply in_app_or in Hm as [Hm|Hm].
+    - apply in_or_app; left. eapply HCl; eauto.
+    - destruct (in_dec Nat.eq_dec d S) as [X|X]. apply in_or_app; auto. apply in_or_app; left. eapply Sdir; eauto.
+  Qed.
+
+  Lemma goodS_snoc : forall fs o L1 S (env : penv) (f : modid -> pm),
+    GoodS fs o L1 env -> map fst env = concat L1 -> DomG fs env -> Closed fs o env ->
+    (forall m, In m S -> inG fs m = true) -> (forall m, In m S -> ~ In m (map fst env)) ->
+    (forall m, In m S -> pm_is fs o m (f m) (analyze S (src_of fs) o (ienv (env ++ map (fun x => (x, f x)) S)) m)) ->
+    GoodS fs o (L1 ++ [S]) (env ++ map (fun x => (x, f x)) S).
+  Proof.
+    intros fs o L1 S env f HG Hdom D1 HCl SinG Sdisj Hnew S1 m HS1 Hm.
+    apply in_app_or in HS1 as [HS1|[<-|[]]].
+    - eapply goodS_extend; eauto. apply domG_app; auto.
+    - exists (f m). split; auto. rewrite lookup_app_r by (apply lookup_None; auto).
+      apply (lookup_map_fn _ f S m Hm).
+  Qed.
+
+  Lemma process_scc_inv : forall K c o fs now L1 S L2 st,
+    StoreOK K c -> ProbeFresh c o fs -> SccFresh c o fs -> FSOK fs -> NB fs ->
+    sccs_of (depmap c o fs) = L1 ++ S :: L2 ->
+    Inv c fs o now L1 st -> Inv c fs o now (L1 ++ [S]) (process_scc c o fs now (depmap c o fs) st S).
+  Proof.
+    intros K c o fs now L1 S L2 [env c'] HC HP HSF HFS HNB HL [Hdom [HG [D1 [HCl [[K' HC'] [Hfr HRG]]]]]]. simpl in *.
+    destruct (step_facts _ _ _ _ _ _ _ _ HC HP HFS HL Hdom) as [SinG [Sdisj [SND [Stopo Sdir]]]].
     assert (CC : concat (L1 ++ [S]) = concat L1 ++ S) by (rewrite concat_app; simpl; rewrite app_nil_r; auto).
     unfold Model.process_scc. destruct (scc_fresh c o fs (depmap c o fs) env S) eqn:F.
     - unfold Inv; simpl. rewrite CC. split.
       { rewrite map_app, map_map; simpl. rewrite map_id. congruence. }
-      split. { eapply good_step; eauto. intros m Hm. eapply fresh_good; eauto. }
-      split. { apply (closed_step c o fs L1 S L2 env _ HC HP HFS HL Hdom); auto. rewrite map_map; simpl. apply map_id. }
-      split; auto. intros m Hm. apply Hfr. intro; apply Hm; apply in_or_app; auto.
+      split. { apply goodS_snoc; auto. intros m Hm. eapply fresh_good; eauto. }
+      split. { apply domG_app; auto. }
+      split. { apply (closed_step fs o env _ S); auto. rewrite map_map; simpl. apply map_id. }
+      split. { exists K'; auto. }
+      split. { intros m Hm. apply Hfr. intro; apply Hm; apply in_or_app; auto. }
+      intros m0 e0 H0. destruct (HRG _ _ H0) as [X|[X1 [X2 X3]]]; auto. right. split; auto. split; auto.
+      apply in_or_app; auto.
     - set (R := analyze S (src_of fs) o (ienv env)).
       set (env' := env ++ map (fun m => (m, fresh_pm fs o R m)) S).
-      assert (G' : Good fs o env').
-      { eapply good_step; eauto. intros m Hm.
-        destruct (stale_good c o fs L1 S L2 env m HFS HL Hdom Hm) as [s [Hs HR]]. fold R in HR.
-        exists s; split; auto. simpl. unfold Model.ign_now. rewrite Hs, <- HR. auto. }
-      assert (C' : Closed fs o env').
-      { apply (closed_step c o fs L1 S L2 env _ HC HP HFS HL Hdom); auto. rewrite map_map; simpl. apply map_id. }
-      destruct (write_fold_spec c o fs now (depmap c o fs) env' R S c' HC HP HC' SND) as [W1 W2]; auto.
+      set (dm := depmap c o fs).
+      set (cf := fold_left (write_module c o fs now dm S env' R) S c').
+      destruct (write_fold_char K c o fs now dm S env' R S c' HC SND) as [W1 W2].
       { intros m Hm. apply Hfr. rewrite <- Hdom. auto. }
-      { intros m Hm. split.
-        - unfold env'. rewrite map_app, map_map; simpl. rewrite map_id. apply in_or_app; auto.
-        - destruct (stale_good c o fs L1 S L2 env m HFS HL Hdom Hm) as [s [Hs HR]]. exists s. split; auto. split; auto. split; auto.
-          intros d Hd. eapply indirect_reach; eauto. rewrite HL. apply in_or_app; right; left; auto. }
-      unfold Inv; simpl. rewrite CC. split.
+      { intros m Hm. split. apply inG_lookup; auto. apply an_nonzero. }
+      fold cf in W1, W2.
+      assert (NEW : forall m e, In m S -> s_meta cf m = Some e ->
+                 exists s d, lookup fs m = Some s /\ s_data cf m = Some d /\ d_iface d = r_iface (R m) /\
+                             e = new_meta c o fs now dm S env' R m s (d_mtime d) /\
+                             s_ex cf m = Some (new_ex c o fs env' R m s)).
+      { intros m e Hm He. destruct (proj1 (inG_lookup fs m) (SinG _ Hm)) as [s Hs].
+        destruct (W2 m s Hm Hs) as [[A _]|[d [A1 [A2 [A3 A4]]]]]; [congruence|].
+        exists s, d. rewrite He in A3. inversion A3. auto. }
+      assert (OLDE : forall m e, ~ In m S -> s_meta cf m = Some e -> s_meta c' m = Some e).
+      { intros m e Hm He. destruct (W1 m Hm) as [A _]. congruence. }
+      assert (NOKEY : forall m e, s_meta c' m = Some e -> ~ In m S -> ~ (m_gen e = now /\ m_scc e = S)).
+      { intros m e He Hm [G1 G2]. destruct (HRG _ _ He) as [X|[_ [_ X3]]]; [lia|]. rewrite G2 in X3. tauto. }
+      unfold Inv; simpl. fold R. fold env'. fold dm. fold cf. rewrite CC. split.
       { unfold env'. rewrite map_app, map_map; simpl. rewrite map_id. congruence. }
-      split; auto. split; auto. split; auto.
-      intros m Hm. destruct (W2 m) as [_ [_ W]]. intro; apply Hm; apply in_or_app; auto.
-      rewrite W. apply Hfr. intro; apply Hm; apply in_or_app; auto.
+      split. { apply goodS_snoc; auto. intros m Hm. exact (stale_good K c o fs L1 S L2 env m HC HP HFS HL Hdom D1 Hm). }
+      split. { apply domG_app; auto. }
+      split. { apply (closed_step fs o env _ S); auto. rewrite map_map; simpl. apply map_id. }
+      split.
+      { exists (add_call K' now S (src_of fs, env0_of c o fs env env')).
+        destruct HC' as [C1 [C2 [G2 G3]]]. split; [|split; [|split]].
+        - intros m e x He Hx. destruct (in_dec Nat.eq_dec m S) as [Hm|Hm].
+          + destruct (NEW m e Hm He) as [s [d [Hs [_ [_ [-> Hx']]]]]]. rewrite Hx in Hx'. inversion Hx'; subst x.
+            eapply new_entry_ok; eauto.
+          + pose proof (OLDE m e Hm He) as He'. destruct (W1 m Hm) as [_ [A _]]. rewrite A in Hx.
+            eapply entry_K_irrel; [|eapply C1; eauto]. symmetry. apply add_call_other. eapply NOKEY; eauto.
+        - intros m e d He Hd. destruct (in_dec Nat.eq_dec m S) as [Hm|Hm].
+          + destruct (NEW m e Hm He) as [s [d' [Hs [Hd' [Hi [-> _]]]]]]. rewrite Hd in Hd'. inversion Hd'; subst. simpl. auto.
+          + pose proof (OLDE m e Hm He) as He'. destruct (W1 m Hm) as [_ [_ A]]. rewrite A in Hd. eauto.
+        - intros m m' e e' He He' Hin. destruct (in_dec Nat.eq_dec m S) as [Hm|Hm].
+          + destruct (NEW m e Hm He) as [s [d [_ [_ [_ [-> _]]]]]]. simpl in Hin.
+            destruct (NEW m' e' Hin He') as [s' [d' [_ [_ [_ [-> _]]]]]]. simpl. lia.
+          + pose proof (OLDE m e Hm He) as Ho. destruct (in_dec Nat.eq_dec m' S) as [Hm'|Hm'].
+            * destruct (NEW m' e' Hm' He') as [s' [d' [_ [_ [_ [-> _]]]]]]. simpl.
+              destruct (HRG _ _ Ho) as [X|[X _]]; lia.
+            * eapply G2; eauto.
+        - intros m m' e e' He He' Hg Hin. destruct (in_dec Nat.eq_dec m S) as [Hm|Hm].
+          + destruct (NEW m e Hm He) as [s [d [_ [_ [_ [-> _]]]]]]. simpl in Hin.
+            destruct (NEW m' e' Hin He') as [s' [d' [_ [_ [_ [-> _]]]]]]. simpl. auto.
+          + pose proof (OLDE m e Hm He) as Ho. destruct (in_dec Nat.eq_dec m' S) as [Hm'|Hm'].
+            * exfalso. destruct (NEW m' e' Hm' He') as [s' [d' [_ [_ [_ [E' _]]]]]]. subst e'. simpl in Hg.
+              destruct (HRG _ _ Ho) as [X|[_ [X2 _]]]; [lia|].
+              apply (Sdisj m' Hm'). rewrite Hdom. apply in_concat. eauto.
+            * eapply G3; eauto. }
+      split.
+      { intros m Hm. destruct (W1 m) as [_ [_ W]]. intro; apply Hm; apply in_or_app; auto.
+        rewrite W. apply Hfr. intro; apply Hm; apply in_or_app; auto. }
+      intros m0 e0 H0. destruct (in_dec Nat.eq_dec m0 S) as [Hm|Hm].
+      + destruct (NEW m0 e0 Hm H0) as [s [d [_ [_ [_ [-> _]]]]]]. simpl. right. split; auto. split; auto.
+        apply in_or_app; right; left; auto.
+      + pose proof (OLDE m0 e0 Hm H0) as Ho. destruct (HRG _ _ Ho) as [X|[X1 [X2 X3]]]; auto.
+        right. split; auto. split; auto. apply in_or_app; auto.
   Qed.
 
-  Lemma process_all_inv : forall c o fs now L2 L1 st,
-    CacheOK c -> ProbeFresh c o fs -> FSOK fs -> NB fs -> sccs_of (depmap c o fs) = L1 ++ L2 -> Inv c fs o L1 st ->
-    Inv c fs o (L1 ++ L2) (fold_left (process_scc c o fs now (depmap c o fs)) L2 st).
+  Lemma process_all_inv : forall K c o fs now L2 L1 st,
+    StoreOK K c -> ProbeFresh c o fs -> SccFresh c o fs -> FSOK fs -> NB fs ->
+    sccs_of (depmap c o fs) = L1 ++ L2 -> Inv c fs o now L1 st ->
+    Inv c fs o now (L1 ++ L2) (fold_left (process_scc c o fs now (depmap c o fs)) L2 st).
   Proof.
-    intros c o fs now L2. induction L2 as [|S L2 IH]; simpl; intros L1 st HC HP HFS HNB HL HI.
+    intros K c o fs now L2. induction L2 as [|S L2 IH]; simpl; intros L1 st HC HP HSF HFS HNB HL HI.
     - rewrite app_nil_r; auto.
     - replace (L1 ++ S :: L2) with ((L1 ++ [S]) ++ L2) in * by (rewrite <- app_assoc; auto).
       apply IH; auto. eapply process_scc_inv; eauto. rewrite <- app_assoc in HL. exact HL.
   Qed.
-
   (* ---- the mtime-update write of validate_meta keeps the invariant *)
-  Lemma restamp_ok : forall c o fs, CacheOK c -> CacheOK (restamp c o fs).
+  Lemma restamp_ok : forall K c o fs, StoreOK K c -> StoreOK K (restamp c o fs).
   Proof.
-    intros c o fs HC. pose proof HC as [C1 C2]. split; simpl.
-    - intros m e' x H1 H2.
-      destruct (load_meta c o fs m) as [[e x0]|] eqn:L; [|eauto].
-      destruct (lookup fs m) as [s|] eqn:Hs; [|eauto].
-      destruct (Nat.eqb (m_stamp e) s) eqn:E; [eauto|].
-      destruct (load_ok _ _ _ _ _ _ HC L) as [s' [d [Hs' [Hme [Hx [_ [Ho [Hh [_ [EOK _]]]]]]]]]].
-      rewrite Hs in Hs'; inversion Hs'; subst s'. rewrite Hx in H2; inversion H2; subst x0.
-      inversion H1; subst e'; clear H1. destruct EOK as [[G1 G2] [envm G3]]. subst o.
-      split; [split; simpl; auto|]. exists envm. exact G3.
-    - intros m e' d H1 H2.
-      destruct (load_meta c o fs m) as [[e x0]|] eqn:L; [|eauto].
-      destruct (lookup fs m) as [s|] eqn:Hs; [|eauto].
-      destruct (Nat.eqb (m_stamp e) s) eqn:E; [eauto|].
-      destruct (load_ok _ _ _ _ _ _ HC L) as [s' [d' [_ [Hme _]]]].
-      inversion H1; subst e'; simpl. eauto.
+    intros K c o fs HC. pose proof HC as [C1 [C2 [G2 G3]]].
+    assert (RS : forall m e', s_meta (restamp c o fs) m = Some e' ->
+              exists e, s_meta c m = Some e /\ m_gen e' = m_gen e /\ m_scc e' = m_scc e /\ m_ihash e' = m_ihash e /\
+                        (forall x, s_ex c m = Some x -> EntryOK K m e' x)).
+    { intros m e' H1. simpl in H1.
+      destruct (load_meta c o fs m) as [[e x0]|] eqn:L; [|exists e'; split; [auto|split; [auto|split; [auto|split; [auto|intros; eapply C1; eauto]]]]].
+      destruct (lookup fs m) as [s|] eqn:Hs; [|exists e'; split; [auto|split; [auto|split; [auto|split; [auto|intros; eapply C1; eauto]]]]].
+      destruct (Nat.eqb (m_stamp e) s) eqn:E; [exists e'; split; [auto|split; [auto|split; [auto|split; [auto|intros; eapply C1; eauto]]]]|].
+      destruct (load_ok _ _ _ _ _ _ _ HC L) as [s' [d [Hs' [Hme [Hx [_ [Ho [Hh [_ [EOK _]]]]]]]]]].
+      rewrite Hs in Hs'; inversion Hs'; subst s'. injection H1 as <-. exists e. simpl.
+      split; [auto|]. split; [auto|]. split; [auto|]. split; [auto|]. intros x Hx'. rewrite Hx in Hx'; inversion Hx'; subst x0.
+      unfold EntryOK in *. simpl. subst o. unfold eo in *. simpl in *.
+      destruct EOK as [A1 [A2 [A3 R]]]. split; [auto|]. split; [auto|]. split; [exact Hh|exact R]. }
+    split; [|split; [|split]].
+    - intros m e' x H1 H2. simpl in H2. destruct (RS _ _ H1) as [e [_ [_ [_ [_ X]]]]]. auto.
+    - intros m e' d H1 H2. simpl in H2. destruct (RS _ _ H1) as [e [He [_ [_ [Hi _]]]]]. rewrite Hi. eauto.
+    - intros m m' e e' H1 H2 Hin. destruct (RS _ _ H1) as [a [Ha [Ga [Sa _]]]]. destruct (RS _ _ H2) as [b [Hb [Gb [Sb _]]]].
+      rewrite Ga, Gb. rewrite Sa in Hin. eauto.
+    - intros m m' e e' H1 H2 Hg Hin. destruct (RS _ _ H1) as [a [Ha [Ga [Sa _]]]]. destruct (RS _ _ H2) as [b [Hb [Gb [Sb _]]]].
+      rewrite Sa, Sb. rewrite Sa in Hin. rewrite Ga, Gb in Hg. eauto.
   Qed.
 
-  Lemma run_inv : forall c fs o now, CacheOK c -> ProbeFresh c o fs -> FSOK fs -> NB fs ->
-    Inv c fs o (sccs_of (depmap c o fs)) (run c fs o now).
+  Lemma restamp_gen : forall c o fs n, GenBound c n -> GenBound (restamp c o fs) n.
+  Proof.
+    intros c o fs n HB m e' H1. simpl in H1.
+    destruct (load_meta c o fs m) as [[e x0]|] eqn:L; [|eauto].
+    destruct (lookup fs m) as [s|] eqn:Hs; [|eauto].
+    destruct (Nat.eqb (m_stamp e) s) eqn:E; [eauto|].
+    injection H1 as <-. simpl. apply load_spec in L as [s' [_ [F _]]]. apply find_spec in F as [F _]. eauto.
+  Qed.
+
+  Lemma run_inv : forall K c fs o now, StoreOK K c -> GenBound c now -> ProbeFresh c o fs -> SccFresh c o fs ->
+    FSOK fs -> NB fs -> Inv c fs o now (sccs_of (depmap c o fs)) (run c fs o now).
   Proof.
     intros. unfold Model.run.
-    apply (process_all_inv c o fs now (sccs_of (depmap c o fs)) [] ([], restamp c o fs)); auto.
-    unfold Inv; simpl. split; [reflexivity|]. split; [intros m p Hp; discriminate|].
-    split; [intros m s d Hm; inversion Hm|]. split; auto. apply restamp_ok; auto.
+    apply (process_all_inv K c o fs now (sccs_of (depmap c o fs)) [] ([], restamp c o fs)); auto.
+    unfold Inv; simpl. split; [reflexivity|]. split; [intros S m HS; inversion HS|].
+    split; [intros m Hm; inversion Hm|]. split; [intros m s d Hm; inversion Hm|].
+    split; [exists K; apply restamp_ok; auto|]. split; auto.
+    intros m0 e0 H5. left. eapply restamp_gen; eauto.
   Qed.
 
-  (* ---- what a run computes: a solution of the per-module equations over the whole program *)
-  Definition genv (fs : FS) (I : modid -> ihash) : modid -> option ihash :=
-    fun d => if inG fs d then Some (I d) else None.
-  Definition Sol (fs : FS) (o : opts) (I : modid -> ihash) (E : modid -> list diag) : Prop :=
-    forall m s, lookup fs m = Some s ->
-      let r := check m (content_of m s) o (genv fs I) in
-      I m = r_iface r /\ E m = (if ign_of m s o then [] else r_errors r).
-
-  Definition I_of (env : penv) (m : modid) : ihash := match lookup env m with Some p => p_iface p | None => 0 end.
-  Definition E_of (env : penv) (m : modid) : list diag := match lookup env m with Some p => p_errors p | None => [] end.
-
-  Lemma run_sol : forall c fs o now, CacheOK c -> ProbeFresh c o fs -> FSOK fs -> NB fs ->
-    let env := fst (run c fs o now) in
-    (forall m, inG fs m = true -> exists p, lookup env m = Some p) /\ Sol fs o (I_of env) (E_of env) /\
-    CacheOK (snd (run c fs o now)).
+  (* ---- two runs on the same files and options compute the same results, whatever valid caches they start from *)
+  Lemma lookup_depmap_inv : forall c o (fs : FS) m ds, lookup (depmap c o fs) m = Some ds ->
+    exists s, lookup fs m = Some s /\ ds = direct_deps c o fs m s.
   Proof.
-    intros c fs o now HC HP HFS HNB env.
-    destruct (run_inv c fs o now HC HP HFS HNB) as [Hdom [HG [_ [HC' _]]]]. fold env in Hdom, HG.
-    destruct (sccs_spec _ (depmap_ok c o fs HFS)) as [_ [Hcov _]].
-    assert (DOM : forall m, inG fs m = true -> exists p, lookup env m = Some p).
-    { intros m Hm. apply lookup_dom. rewrite Hdom. apply Hcov. rewrite depmap_dom. apply inG_In; auto. }
-    split; auto. split; auto.
-    intros m s Hs. destruct (DOM m) as [p Hp]. apply inG_lookup; eauto.
-    destruct (HG _ _ Hp) as [s' [Hs' [G1 [G2 _]]]]. rewrite Hs in Hs'; inversion Hs'; subst s'.
-    simpl. unfold I_of at 1, E_of. rewrite Hp.
-    replace (check m (content_of m s) o (genv fs (I_of env))) with (check m (content_of m s) o (ienv env)); auto.
-    apply check_reads. intros d _. unfold ienv, genv, I_of. destruct (inG fs d) eqn:G.
-    - destruct (DOM d G) as [q Hq]. rewrite Hq; auto.
-    - destruct (lookup env d) eqn:Q; auto. apply lookup_Some_dom in Q. apply (good_dom fs o) in Q; auto. congruence.
+    intros c o fs m ds. unfold Model.depmap. generalize (direct_deps c o fs) as f. intros f.
+    induction fs as [|[k v] t]; simpl; intros; try discriminate.
+    destruct (Nat.eqb m k) eqn:E. apply Nat.eqb_eq in E; subst. inversion H; subst. eauto. auto.
   Qed.
 
-  (* ---- uniqueness of the solution.  What has to be ASSUMED for import cycles is LevelUnique: with the SCC index as
-     rank, "two solutions of the program that agree on all lower SCCs agree on this SCC" (the SCC is the unit).
-     For programs whose imports and reported indirect dependencies are well-founded it is a THEOREM (acyclic_unique). *)
-  Definition Unique (fs : FS) (o : opts) : Prop :=
-    forall I E I' E', Sol fs o I E -> Sol fs o I' E' -> forall m, inG fs m = true -> I m = I' m /\ E m = E' m.
+  Definition agree (env1 env2 : penv) (d : modid) : Prop :=
+    forall p1 p2, lookup env1 d = Some p1 -> lookup env2 d = Some p2 ->
+      p_iface p1 = p_iface p2 /\ p_errors p1 = p_errors p2.
 
-  Definition LevelUnique (fs : FS) (o : opts) (rank : modid -> nat) : Prop :=
-    forall k I E I' E', Sol fs o I E -> Sol fs o I' E' ->
-      (forall d, inG fs d = true -> rank d < k -> I d = I' d) ->
-      forall m, inG fs m = true -> rank m = k -> I m = I' m.
-
-  Definition Acyclic (fs : FS) (o : opts) (rank : modid -> nat) : Prop :=
-    forall m s d env, lookup fs m = Some s -> inG fs d = true ->
-      In d (imports m (content_of m s) o ++ probes m (content_of m s) o) \/
-      In d (r_indirect (check m (content_of m s) o env)) ->
-      rank d < rank m.
-
-  Lemma level_unique_unique : forall fs o rank, LevelUnique fs o rank -> Unique fs o.
+  Lemma runs_agree : forall K1 c1 K2 c2 fs o n1 n2,
+    StoreOK K1 c1 -> GenBound c1 n1 -> ProbeFresh c1 o fs -> SccFresh c1 o fs ->
+    StoreOK K2 c2 -> GenBound c2 n2 -> ProbeFresh c2 o fs -> SccFresh c2 o fs ->
+    FSOK fs -> NB fs ->
+    let env1 := fst (run c1 fs o n1) in let env2 := fst (run c2 fs o n2) in
+    (forall m, inG fs m = true -> (exists p, lookup env1 m = Some p) /\ (exists p, lookup env2 m = Some p)) /\
+    (forall m, agree env1 env2 m).
   Proof.
-    intros fs o rank LU I E I' E' S1 S2.
-    assert (A : forall k m, inG fs m = true -> rank m = k -> I m = I' m).
-    { induction k as [k IH] using lt_wf_ind. intros m G Rk.
-      eapply (LU k I E I' E'); eauto; intros d Gd Hd; eapply IH; eauto. }
-    intros m G. split. eapply A; eauto.
-    apply inG_lookup in G as [s Hs]. destruct (S1 _ _ Hs) as [_ A2]. destruct (S2 _ _ Hs) as [_ B2]. simpl in *.
-    rewrite A2, B2.
-    replace (check m (content_of m s) o (genv fs I')) with (check m (content_of m s) o (genv fs I)); auto.
-    apply check_reads. intros d _. unfold genv. destruct (inG fs d) eqn:Gd; auto. f_equal. eapply A; eauto.
+    intros K1 c1 K2 c2 fs o n1 n2 HC1 HB1 HP1 HS1 HC2 HB2 HP2 HS2 HFS HNB env1 env2.
+    destruct (run_inv K1 c1 fs o n1 HC1 HB1 HP1 HS1 HFS HNB) as [Hd1 [HG1 [D1 _]]].
+    destruct (run_inv K2 c2 fs o n2 HC2 HB2 HP2 HS2 HFS HNB) as [Hd2 [HG2 [D2 _]]].
+    fold env1 in Hd1, HG1, D1. fold env2 in Hd2, HG2, D2.
+    set (dm1 := depmap c1 o fs) in *. set (dm2 := depmap c2 o fs) in *.
+    destruct (sccs_spec _ (depmap_ok c1 o fs HFS)) as [ND1 [Hcov1 Htopo1]].
+    destruct (sccs_spec _ (depmap_ok c2 o fs HFS)) as [ND2 [Hcov2 _]].
+    fold dm1 in ND1, Hcov1, Htopo1. fold dm2 in ND2, Hcov2.
+    assert (DOM : forall m, inG fs m = true -> (exists p, lookup env1 m = Some p) /\ (exists p, lookup env2 m = Some p)).
+    { intros m Hm. apply inG_In in Hm. split; apply lookup_dom.
+      - rewrite Hd1. apply Hcov1. unfold dm1. rewrite depmap_dom. auto.
+      - rewrite Hd2. apply Hcov2. unfold dm2. rewrite depmap_dom. auto. }
+    split; auto.
+    assert (EXT : forall S, In S (sccs_of dm1) -> exists S', In S' (sccs_of dm2) /\ (forall x, In x S <-> In x S')).
+    { apply sccs_groups_ext. unfold dm1, dm2. rewrite !depmap_dom. auto.
+      intros m ds ds' d A B. apply lookup_depmap_inv in A as [s [Hs ->]]. apply lookup_depmap_inv in B as [s' [Hs' ->]].
+      rewrite Hs in Hs'; inversion Hs'; subst s'.
+      rewrite (direct_deps_spec K1 c1 o fs m s d HC1 HP1 Hs). rewrite (direct_deps_spec K2 c2 o fs m s d HC2 HP2 Hs). tauto. }
+    assert (MAIN : forall Q P, sccs_of dm1 = P ++ Q -> (forall d, In d (concat P) -> agree env1 env2 d) ->
+                     forall d, In d (concat (P ++ Q)) -> agree env1 env2 d).
+    { induction Q as [|S Q IH]; intros P HL HP d Hd.
+      - rewrite app_nil_r in Hd. auto.
+      - replace (P ++ S :: Q) with ((P ++ [S]) ++ Q) in * by (rewrite <- app_assoc; auto).
+        revert d Hd. apply (IH (P ++ [S])); auto. intros d Hd. rewrite concat_app in Hd. simpl in Hd. rewrite app_nil_r in Hd.
+        apply in_app_or in Hd as [Hd|Hd]; auto.
+        rewrite <- app_assoc in HL. simpl in HL.
+        assert (InL : In S (sccs_of dm1)) by (rewrite HL; apply in_or_app; right; left; auto).
+        destruct (EXT S InL) as [S' [InL' EQ]].
+        intros p1 p2 L1 L2.
+        destruct (HG1 S d InL Hd) as [q1 [Q1 [s1 [Hs1 [I1 [E1 _]]]]]].
+        destruct (HG2 S' d InL' (proj1 (EQ d) Hd)) as [q2 [Q2 [s2 [Hs2 [I2 [E2 _]]]]]].
+        rewrite L1 in Q1; inversion Q1; subst q1. rewrite L2 in Q2; inversion Q2; subst q2.
+        rewrite Hs1 in Hs2; inversion Hs2; subst s2.
+        assert (CALL : analyze S (src_of fs) o (ienv env1) d = analyze S' (src_of fs) o (ienv env2) d).
+        { apply an_ext; auto.
+          assert (LOW : forall x, In x (concat P ++ S) -> ~ In x S -> ienv env1 x = ienv env2 x).
+          { intros x Hx HnS. apply in_app_or in Hx as [Hx|Hx]; [|tauto].
+            assert (G : inG fs x = true).
+            { apply inG_In. rewrite <- (depmap_dom c1 o fs). apply Hcov1. rewrite HL, concat_app. apply in_or_app; auto. }
+            destruct (DOM x G) as [[a Ha] [b Hb]]. unfold ienv. rewrite Ha, Hb. simpl.
+            destruct (HP x Hx a b Ha Hb) as [X _]. congruence. }
+          intros m1 x Hm1 [HnS [Hx|Hx]].
+          - assert (G1 : inG fs m1 = true).
+            { apply inG_In. rewrite <- (depmap_dom c1 o fs). apply Hcov1. rewrite HL, concat_app. simpl.
+              apply in_or_app; right. apply in_or_app; auto. }
+            destruct (proj1 (inG_lookup fs m1) G1) as [sm Hsm]. rewrite (src_of_eq _ _ _ Hsm) in Hx.
+            destruct (inG fs x) eqn:G.
+            + apply LOW; auto. apply (Htopo1 P S Q m1 (direct_deps c1 o fs m1 sm) x HL Hm1).
+              apply lookup_depmap; auto. eapply direct_deps_spec; eauto.
+            + rewrite (ienv_none fs env1 x D1 G), (ienv_none fs env2 x D2 G). auto.
+          - apply LOW; auto. eapply reach_before; eauto; try (eapply indirect_reach; eauto). }
+        rewrite I1, I2, E1, E2, CALL. auto. }
+    intros m p1 p2 L1 L2. eapply (MAIN (sccs_of dm1) []); simpl; eauto. intros d []. 
+    rewrite <- Hd1. eapply lookup_Some_dom; eauto.
   Qed.
-
-  Lemma acyclic_level_unique : forall fs o rank, Acyclic fs o rank -> LevelUnique fs o rank.
-  Proof.
-    intros fs o rank AC k I E I' E' S1 S2 Hlow m G Rk.
-    apply inG_lookup in G as [s Hs]. destruct (S1 _ _ Hs) as [A1 _]. destruct (S2 _ _ Hs) as [B1 _]. simpl in *.
-    rewrite A1, B1. f_equal. apply check_reads. intros d Hd. unfold genv.
-    destruct (inG fs d) eqn:Gd; auto. f_equal. apply Hlow; auto. rewrite <- Rk. eapply AC; eauto.
-  Qed.
-
-  Lemma acyclic_unique : forall fs o rank, Acyclic fs o rank -> Unique fs o.
-  Proof. intros. eapply level_unique_unique. eapply acyclic_level_unique; eauto. Qed.
-
   Lemma existsb_ext_in : forall A (f g : A -> bool) l, (forall a, In a l -> f a = g a) -> existsb f l = existsb g l.
   Proof. induction l; simpl; intros; auto. rewrite H by auto. f_equal; auto. Qed.
 
-  Lemma ProbeFresh_empty : forall o fs, ProbeFresh empty_store o fs.
+  Lemma reports_agree : forall (fs : FS) (env1 env2 : penv),
+    (forall m, inG fs m = true -> (exists p, lookup env1 m = Some p) /\ (exists p, lookup env2 m = Some p)) ->
+    (forall m, agree env1 env2 m) ->
+    (report fs env1, status fs env1) = (report fs env2, status fs env2).
   Proof.
-    intros o fs m e x s L. unfold Model.load_meta, Model.find_cache_meta in L. simpl in L.
-    destruct (lookup fs m); discriminate.
-  Qed.
-
-  Lemma ProbeFresh_noprobes : (forall m c o, probes m c o = []) -> forall c o fs, ProbeFresh c o fs.
-  Proof. intros H c o fs m e x s _ _ d Hd. rewrite H in Hd. inversion Hd. Qed.
-
-  Lemma runs_agree : forall c c' fs o n n', CacheOK c -> ProbeFresh c o fs -> CacheOK c' -> ProbeFresh c' o fs ->
-    FSOK fs -> NB fs -> Unique fs o ->
-    let env := fst (run c fs o n) in let env' := fst (run c' fs o n') in
-    (report fs env, status fs env) = (report fs env', status fs env').
-  Proof.
-    intros c c' fs o n n' HC HP HC' HP' HFS HNB HU env env'.
-    destruct (run_sol c fs o n HC HP HFS HNB) as [D1 [S1 _]]. destruct (run_sol c' fs o n' HC' HP' HFS HNB) as [D2 [S2 _]].
-    fold env in D1, S1. fold env' in D2, S2.
-    assert (EQ : forall ms, In ms fs ->
-              exists p p', lookup env (fst ms) = Some p /\ lookup env' (fst ms) = Some p' /\ p_errors p = p_errors p').
+    intros fs env1 env2 DOM AG.
+    assert (EQ : forall ms, In ms fs -> exists p p', lookup env1 (fst ms) = Some p /\ lookup env2 (fst ms) = Some p' /\
+                                           p_errors p = p_errors p').
     { intros [m s] Hin; simpl. assert (G : inG fs m = true). { apply inG_In. apply in_map_iff. exists (m, s); auto. }
-      destruct (D1 m G) as [p Hp]. destruct (D2 m G) as [p' Hp']. exists p, p'. repeat split; auto.
-      destruct (HU _ _ _ _ S1 S2 m G) as [_ HE]. unfold E_of in HE. rewrite Hp, Hp' in HE. auto. }
+      destruct (DOM m G) as [[p Hp] [p' Hp']]. exists p, p'. repeat split; auto. eapply AG; eauto. }
     unfold report, status. f_equal.
     - apply map_ext_in. intros ms Hin. destruct (EQ ms Hin) as [p [p' [H1 [H2 H3]]]]. rewrite H1, H2. simpl. congruence.
     - apply existsb_ext_in. intros ms Hin. destruct (EQ ms Hin) as [p [p' [H1 [H2 H3]]]]. rewrite H1, H2. congruence.
@@ -846,7 +1035,6 @@ Section Correct.
 
   (* ---- blocking errors *)
   Notation blocked := (Model.blocked content_of ign_of blocker).
-  Notation run_b := (Model.run_b content_of imports probes analyze sccs_of reach sdo_of thash ign_of blocker).
   Notation warm := (Model.warm content_of imports probes analyze sccs_of reach sdo_of thash ign_of blocker).
   Notation cold := (Model.cold content_of imports probes analyze sccs_of reach sdo_of thash ign_of blocker).
   Notation runs := (Model.runs content_of imports probes analyze sccs_of reach sdo_of thash ign_of blocker).
@@ -860,77 +1048,89 @@ Section Correct.
       apply in_map_iff. exists (k, s); auto.
   Qed.
 
-  (* a run is aborted iff some file of the program has a blocking error - whatever the cache *)
-  Lemma blocked_spec : forall c o fs, CacheOK c -> FSOK fs ->
+  Lemma blocked_spec : forall K c o fs, StoreOK K c -> FSOK fs ->
     (blocked c o fs = true <-> exists m s, In (m, s) fs /\ blocker m (content_of m s) = true).
   Proof.
-    intros c o fs HC HFS. unfold Model.blocked. rewrite existsb_exists. split.
+    intros K c o fs HC HFS. unfold Model.blocked. rewrite existsb_exists. split.
     - intros [[m s] [Hin H]]. simpl in H. exists m, s. split; auto.
       destruct (load_meta c o fs m) as [[e x]|]; try discriminate; auto.
     - intros [m [s [Hin Hb]]]. exists (m, s). split; auto. simpl.
       destruct (load_meta c o fs m) as [[e x]|] eqn:L; auto. exfalso.
-      destruct (load_ok _ _ _ _ _ _ HC L) as [s' [d [Hs' [_ [_ [_ [_ [Hh [_ [[[_ G2] _] _]]]]]]]]]].
+      destruct (load_ok _ _ _ _ _ _ _ HC L) as [s' [d [Hs' [_ [_ [_ [_ [Hh [_ [[_ [_ [_ [G2 _]]]] _]]]]]]]]]].
       rewrite (In_lookup _ _ _ HFS Hin) in Hs'. inversion Hs'; subst s'. congruence.
   Qed.
 
-  Lemma not_blocked_NB : forall c o fs, CacheOK c -> FSOK fs -> blocked c o fs = false -> NB fs.
+  Lemma not_blocked_NB : forall K c o fs, StoreOK K c -> FSOK fs -> blocked c o fs = false -> NB fs.
   Proof.
-    intros c o fs HC HFS Hb m s Hs. destruct (blocker m (content_of m s)) eqn:B; auto.
+    intros K c o fs HC HFS Hb m s Hs. destruct (blocker m (content_of m s)) eqn:B; auto.
     assert (blocked c o fs = true); [|congruence].
-    apply blocked_spec; auto. exists m, s. split; auto. apply lookup_In; auto.
+    eapply blocked_spec; eauto. exists m, s. split; auto. apply lookup_In; auto.
   Qed.
 
-  Lemma blocked_same : forall c c' o fs, CacheOK c -> CacheOK c' -> FSOK fs -> blocked c o fs = blocked c' o fs.
+  Lemma blocked_same : forall K c K' c' o fs, StoreOK K c -> StoreOK K' c' -> FSOK fs -> blocked c o fs = blocked c' o fs.
   Proof.
     intros. destruct (blocked c o fs) eqn:B1; destruct (blocked c' o fs) eqn:B2; auto.
-    - apply blocked_spec in B1; auto. apply (proj2 (blocked_spec c' o fs H0 H1)) in B1. congruence.
-    - apply blocked_spec in B2; auto. apply (proj2 (blocked_spec c o fs H H1)) in B2. congruence.
+    - apply (proj1 (blocked_spec K c o fs H H1)) in B1. apply (proj2 (blocked_spec K' c' o fs H0 H1)) in B1. congruence.
+    - apply (proj1 (blocked_spec K' c' o fs H0 H1)) in B2. apply (proj2 (blocked_spec K c o fs H H1)) in B2. congruence.
   Qed.
 
-  Lemma run_preserves_CacheOK : forall c fs o now, CacheOK c -> ProbeFresh c o fs -> FSOK fs ->
-    CacheOK (snd (warm c fs o now)).
+  Definition SideOK (c : store) (o : opts) (fs : FS) : Prop := ProbeFresh c o fs /\ SccFresh c o fs.
+
+  Lemma SideOK_empty : forall o fs, SideOK empty_store o fs.
   Proof.
-    intros. unfold Model.warm, Model.run_b. destruct (blocked c o fs) eqn:B; simpl.
-    - apply restamp_ok; auto.
-    - apply run_sol; auto. eapply not_blocked_NB; eauto.
+    intros o fs. assert (N : forall m, load_meta empty_store o fs m = None).
+    { intros m. unfold Model.load_meta, Model.find_cache_meta. simpl. destruct (lookup fs m); auto. }
+    split. intros m e x s L; rewrite N in L; discriminate.
+    intros S _ _ m e x _ L; rewrite N in L; discriminate.
   Qed.
 
-  Lemma warm_eq_cold : forall c fs o n n', CacheOK c -> ProbeFresh c o fs -> FSOK fs -> Unique fs o ->
+  Lemma run_preserves : forall c fs o now, CacheOK c -> GenBound c now -> SideOK c o fs -> FSOK fs ->
+    CacheOK (snd (warm c fs o now)) /\ GenBound (snd (warm c fs o now)) (Datatypes.S now).
+  Proof.
+    intros c fs o now [K HC] HB [HP HS] HFS. unfold Model.warm, Model.run_b. destruct (blocked c o fs) eqn:B; simpl.
+    - split. exists K; apply restamp_ok; auto. intros m e H. apply (restamp_gen c o fs now HB) in H. lia.
+    - pose proof (not_blocked_NB K c o fs HC HFS B) as HNB.
+      destruct (run_inv K c fs o now HC HB HP HS HFS HNB) as [_ [_ [_ [_ [HC' [_ HRG]]]]]]. split; auto.
+      intros m e H. destruct (HRG _ _ H) as [X|[X _]]; lia.
+  Qed.
+
+  Lemma warm_eq_cold : forall c fs o n n', CacheOK c -> GenBound c n -> SideOK c o fs -> FSOK fs ->
     output fs (warm c fs o n) = output fs (cold fs o n').
   Proof.
-    intros c fs o n n' HC HP HFS HU. unfold Model.warm, Model.cold, Model.run_b.
-    rewrite (blocked_same c empty_store o fs HC CacheOK_empty HFS).
+    intros c fs o n n' [K HC] HB [HP HS] HFS. unfold Model.warm, Model.cold, Model.run_b.
+    destruct CacheOK_empty as [K0 HC0]. destruct (SideOK_empty o fs) as [HP0 HS0].
+    rewrite (blocked_same K c K0 empty_store o fs HC HC0 HFS).
     destruct (blocked empty_store o fs) eqn:B; unfold output; simpl; auto.
-    assert (NBfs : NB fs) by (eapply (not_blocked_NB empty_store); eauto; apply CacheOK_empty).
-    f_equal. apply runs_agree; auto. apply CacheOK_empty. apply ProbeFresh_empty.
+    assert (NBfs : NB fs) by (eapply (not_blocked_NB K0 empty_store); eauto).
+    f_equal.
+    destruct (runs_agree K c K0 empty_store fs o n n' HC HB HP HS HC0 (GenBound_empty n') HP0 HS0 HFS NBfs) as [DOM AG].
+    apply reports_agree; auto.
   Qed.
 
-  (* the side condition along a history: at every run the cached dependency lists that are reused are still right *)
+  (* the side conditions along a history: at every run the reused dependency lists and SCC provenance are still right *)
   Fixpoint HistOK (c : store) (k : nat) (h : list (FS * opts)) : Prop :=
     match h with
     | [] => True
-    | (fs, o) :: t => FSOK fs /\ ProbeFresh c o fs /\ HistOK (snd (warm c fs o k)) (Datatypes.S k) t
+    | (fs, o) :: t => FSOK fs /\ SideOK c o fs /\ HistOK (snd (warm c fs o k)) (Datatypes.S k) t
     end.
 
-  Lemma HistOK_noprobes : (forall m c o, probes m c o = []) ->
-    forall h c k, (forall fs o, In (fs, o) h -> FSOK fs) -> HistOK c k h.
+  Lemma runs_ok : forall h c k, CacheOK c -> GenBound c k -> HistOK c k h ->
+    CacheOK (runs c k h) /\ GenBound (runs c k h) (k + length h).
   Proof.
-    intros NP. induction h as [|[fs o] t IH]; simpl; intros; auto.
-    split; [eauto|]. split; [apply ProbeFresh_noprobes; auto|]. apply IH; eauto.
+    induction h as [|[fs o] t IH]; simpl; intros c k HC HB HH.
+    - rewrite Nat.add_0_r. auto.
+    - destruct HH as [H1 [H2 H3]]. destruct (run_preserves c fs o k HC HB H2 H1) as [A B].
+      destruct (IH _ _ A B H3) as [C D]. split; auto. replace (k + Datatypes.S (length t)) with (Datatypes.S k + length t) by lia. auto.
   Qed.
 
-  Lemma runs_CacheOK : forall h c k, CacheOK c -> HistOK c k h -> CacheOK (runs c k h).
+  Lemma history_warm_eq_cold : forall h fs o n',
+    HistOK empty_store 0 h -> SideOK (runs empty_store 0 h) o fs -> FSOK fs ->
+    output fs (warm (runs empty_store 0 h) fs o (length h)) = output fs (cold fs o n').
   Proof.
-    induction h as [|[fs o] t IH]; simpl; intros c k HC HH; auto.
-    destruct HH as [H1 [H2 H3]]. apply IH; auto. apply run_preserves_CacheOK; auto.
+    intros h fs o n' HH HS HFS.
+    destruct (runs_ok h empty_store 0 CacheOK_empty (GenBound_empty 0) HH) as [A B]. simpl in B.
+    apply warm_eq_cold; auto.
   Qed.
-
-  (* all finite histories: whatever sequence of file-system states (and options) mypy was run on before (including runs
-     aborted by blocking errors), starting from any valid cache, the next warm run reports what a cold run reports *)
-  Lemma history_warm_eq_cold : forall h c k fs o n n',
-    CacheOK c -> HistOK c k h -> ProbeFresh (runs c k h) o fs -> FSOK fs -> Unique fs o ->
-    output fs (warm (runs c k h) fs o n) = output fs (cold fs o n').
-  Proof. intros. apply warm_eq_cold; auto. apply runs_CacheOK; auto. Qed.
 End Correct.
 
 (* ------------------------------------------------------------------ packaged contract and final statements *)
@@ -940,7 +1140,6 @@ Section Packaged.
   Variable content_of : modid -> stamp -> content.
   Variable imports : modid -> content -> opts -> list modid.
   Variable probes : modid -> content -> opts -> list modid.
-  Variable check : modid -> content -> opts -> (modid -> option ihash) -> result.
   Variable analyze : list modid -> (modid -> content) -> opts -> (modid -> option ihash) -> modid -> result.
   Variable sccs_of : list (modid * list modid) -> list (list modid).
   Variable reach : list (modid * list modid) -> modid -> modid -> bool.
@@ -949,116 +1148,73 @@ Section Packaged.
   Variable ign_of : modid -> stamp -> opts -> bool.
   Variable blocker : modid -> content -> bool.
 
-  (* The analysis contract: "contract, monitored not proved".  No uniqueness assumption in it. *)
+  (* The analysis contract ("contract, monitored not proved"): the SCC is the unit; no uniqueness assumption. *)
   Record AnalysisContract : Prop := {
-    ac_reads : forall m c o env env',
-      (forall d, In d (imports m c o ++ probes m c o) \/ In d (r_indirect (check m c o env)) -> env d = env' d) ->
-      check m c o env = check m c o env';
-    ac_indirect_dom : forall m c o env d, In d (r_indirect (check m c o env)) -> env d <> None;
-    ac_indirect_noself : forall m c o env, ~ In m (r_indirect (check m c o env));
-    ac_iface_nonzero : forall m c o env, r_iface (check m c o env) <> 0;
-    ac_analyze_local : forall S src o env m, In m S ->
-      analyze S src o env m = check m (src m) o (extend env S (fun x => r_iface (analyze S src o env x))) }.
+    ac_ext : forall S S' src src' o env env',
+      (forall x, In x S <-> In x S') -> (forall x, In x S -> src x = src' x) ->
+      (forall m d, In m S -> ext_reads imports probes analyze S src o env m d -> env d = env' d) ->
+      forall m, In m S -> analyze S src o env m = analyze S' src' o env' m;
+    ac_indirect_dom : forall S src o env m d,
+      In m S -> In d (r_indirect (analyze S src o env m)) -> In d S \/ env d <> None;
+    ac_noself : forall S src o env m, ~ In m (r_indirect (analyze S src o env m));
+    ac_nonzero : forall S src o env m, r_iface (analyze S src o env m) <> 0 }.
 
-  (* The graph-algorithm contract (SCCs listed in dependency order; reach only relates a module to modules of
-     its own or earlier SCCs).  Checked on every observed SCC list by the harness. *)
+  (* The graph-algorithm contract: SCCs listed in dependency order; the decomposition as a set of sets depends only on
+     the edge sets; reach/thash as used by verify_transitive_deps; reported indirect deps are reachable. *)
   Record GraphContract : Prop := {
     gc_sccs : forall dm, graph_ok dm -> sccs_ok dm (sccs_of dm);
+    gc_groups : forall dm dm', map fst dm = map fst dm' ->
+      (forall m ds ds' d, lookup dm m = Some ds -> lookup dm' m = Some ds' -> (In d ds <-> In d ds')) ->
+      forall S, In S (sccs_of dm) -> exists S', In S' (sccs_of dm') /\ (forall x, In x S <-> In x S');
     gc_reach : forall dm L1 S L2 m d,
       sccs_of dm = L1 ++ S :: L2 -> In m S -> reach dm m d = true -> In d (concat L1 ++ S);
-    (* hash injectivity behind the fast path of verify_transitive_deps *)
     gc_thash : forall dm dm' m, thash dm m = thash dm' m -> forall d, reach dm m d = reach dm' m d;
-    (* mypy's invariant: reported indirect dependencies are reachable through direct imports *)
     gc_indirect_reach : forall dm S src o env m d,
       In S (sccs_of dm) -> In m S -> In d (r_indirect (analyze S src o env m)) -> reach dm m d = true }.
 
-  Notation CacheOK := (CacheOK content_of imports probes check reach thash blocker).
-  Notation ProbeFresh := (ProbeFresh content_of probes ign_of).
+  Notation CacheOK := (CacheOK content_of imports probes analyze reach thash blocker).
+  Notation SideOK := (SideOK content_of imports probes sccs_of ign_of).
   Notation HistOK := (HistOK content_of imports probes analyze sccs_of reach sdo_of thash ign_of blocker).
-  Notation Unique := (Unique content_of check ign_of).
   Notation warm := (Model.warm content_of imports probes analyze sccs_of reach sdo_of thash ign_of blocker).
   Notation cold := (Model.cold content_of imports probes analyze sccs_of reach sdo_of thash ign_of blocker).
   Notation runs := (Model.runs content_of imports probes analyze sccs_of reach sdo_of thash ign_of blocker).
 
-  Lemma p_run_preserves_CacheOK : AnalysisContract -> GraphContract ->
-    forall c fs o now, CacheOK c -> ProbeFresh c o fs -> FSOK fs -> CacheOK (snd (warm c fs o now)).
-  Proof. intros [] []. eapply run_preserves_CacheOK; eauto. Qed.
+  Lemma p_run_preserves : AnalysisContract -> GraphContract ->
+    forall c fs o now, CacheOK c -> GenBound c now -> SideOK c o fs -> FSOK fs ->
+    CacheOK (snd (warm c fs o now)) /\ GenBound (snd (warm c fs o now)) (Datatypes.S now).
+  Proof. intros [] []. eapply run_preserves; eauto. Qed.
 
   Lemma p_warm_eq_cold : AnalysisContract -> GraphContract ->
-    forall c fs o n n', CacheOK c -> ProbeFresh c o fs -> FSOK fs -> Unique fs o ->
+    forall c fs o n n', CacheOK c -> GenBound c n -> SideOK c o fs -> FSOK fs ->
     output fs (warm c fs o n) = output fs (cold fs o n').
   Proof. intros [] []. eapply warm_eq_cold; eauto. Qed.
 
-  (* per final state: any history before it (cyclic or not, aborted runs, option changes) along which the reused
-     dependency lists stay right (HistOK); uniqueness needed for the final program only *)
   Lemma p_history_partial : AnalysisContract -> GraphContract ->
-    forall (h : list (FS * opts)) (fs : FS) (o : opts) (n n' : nat),
-      HistOK empty_store 0 h -> ProbeFresh (runs empty_store 0 h) o fs -> FSOK fs -> Unique fs o ->
-      output fs (warm (runs empty_store 0 h) fs o n) = output fs (cold fs o n').
-  Proof. intros [] [] h fs o n n' Hh HP Hfs HU. eapply history_warm_eq_cold; eauto. apply CacheOK_empty. Qed.
+    forall (h : list (FS * opts)) (fs : FS) (o : opts) (n' : nat),
+      HistOK empty_store 0 h -> SideOK (runs empty_store 0 h) o fs -> FSOK fs ->
+      output fs (warm (runs empty_store 0 h) fs o (length h)) = output fs (cold fs o n').
+  Proof. intros [] [] h fs o n' Hh HS Hfs. eapply history_warm_eq_cold; eauto. Qed.
 
-  (* programs without `from pkg import maybe_a_submodule`: the full statement *)
-  Lemma p_history_noprobes : AnalysisContract -> GraphContract -> (forall m c o, probes m c o = []) ->
-    (forall fs o, FSOK fs -> Unique fs o) ->
-    Statement.warm_equals_cold_for_all_histories content_of imports probes analyze sccs_of reach sdo_of thash ign_of blocker.
+  (* the side conditions are decidable: the boolean functions of Model.v imply them *)
+  Lemma probe_fresh_sound : forall c o fs,
+    Model.probe_fresh content_of probes ign_of c o fs = true -> ProbeFresh content_of probes ign_of c o fs.
   Proof.
-    intros AC GC NP HU h fs o n n' Hh Hfs. apply p_history_partial; auto.
-    - destruct AC, GC. eapply HistOK_noprobes; eauto.
-    - eapply ProbeFresh_noprobes; eauto.
-  Qed.
-
-  Lemma p_acyclic_unique : AnalysisContract -> forall fs o rank,
-    Acyclic content_of imports probes check fs o rank -> Unique fs o.
-  Proof. intros [] fs o rank. eapply acyclic_unique; eauto. Qed.
-
-  Lemma p_level_unique : AnalysisContract -> forall fs o rank,
-    LevelUnique content_of check ign_of fs o rank -> Unique fs o.
-  Proof. intros [] fs o rank. eapply level_unique_unique; eauto. Qed.
-
-  (* the same, phrased with explicit edits: start from any file system, apply any list of edits, run after each *)
-  Lemma remove_mod_notin : forall m fs, ~ In m (map fst (Statement.remove_mod m fs)).
-  Proof.
-    induction fs as [|[k v] t]; simpl; auto. destruct (Nat.eqb k m) eqn:E; auto.
-    simpl. apply Nat.eqb_neq in E. intros [H|H]; auto.
-  Qed.
-  Lemma remove_mod_sub : forall m fs x, In x (map fst (Statement.remove_mod m fs)) -> In x (map fst fs).
-  Proof.
-    induction fs as [|[k v] t]; simpl; auto. destruct (Nat.eqb k m); simpl; intros; auto. destruct H; auto.
-  Qed.
-  Lemma remove_mod_ok : forall m fs, FSOK fs -> FSOK (Statement.remove_mod m fs).
-  Proof.
-    unfold FSOK. induction fs as [|[k v] t]; simpl; intros; auto. inversion H; subst.
-    destruct (Nat.eqb k m); auto. simpl. constructor; auto. intro X. apply H2. eapply remove_mod_sub; eauto.
-  Qed.
-  Lemma apply_edit_ok : forall fs e, FSOK fs -> FSOK (Statement.apply_edit fs e).
-  Proof.
-    intros fs [m s|m s|m] H; simpl; try (apply remove_mod_ok; auto);
-      (constructor; [apply remove_mod_notin | apply remove_mod_ok; auto]).
-  Qed.
-  Lemma states_ok : forall es fs, FSOK fs -> forall x, In x (Statement.states fs es) -> FSOK x.
-  Proof.
-    induction es; simpl; intros; try tauto. destruct H0; subst. apply apply_edit_ok; auto.
-    eapply IHes; [|eauto]. apply apply_edit_ok; auto.
+    intros c o fs H m e x s L Hs d Hd HG. unfold Model.probe_fresh in H. rewrite forallb_forall in H.
+    specialize (H (m, s) (lookup_In _ _ _ _ Hs)). simpl in H. rewrite L in H. rewrite forallb_forall in H.
+    specialize (H d Hd). rewrite HG in H. simpl in H. apply mem_In; auto.
   Qed.
 
-  Lemma p_edits : AnalysisContract -> GraphContract -> (forall m c o, probes m c o = []) ->
-    forall (fs0 : FS) (es : list Statement.edit) (e : Statement.edit) (o : opts) n n',
-      FSOK fs0 ->
-      let visited := fs0 :: Statement.states fs0 es in
-      let final := Statement.apply_edit (last visited fs0) e in
-      Unique final o ->
-      output final (warm (runs empty_store 0 (map (fun x => (x, o)) visited)) final o n)
-      = output final (cold final o n').
+  Lemma scc_stable_sound : forall c o fs,
+    Model.scc_stable content_of imports probes sccs_of ign_of c o fs = true ->
+    SccFresh content_of imports probes sccs_of ign_of c o fs.
   Proof.
-    intros AC GC NP fs0 es e o n n' H0 visited final HU.
-    assert (V : forall x, In x visited -> FSOK x).
-    { intros x [Hx|Hx]; subst; auto. eapply states_ok; eauto. }
-    apply (p_history_partial AC GC); auto.
-    - destruct AC, GC. eapply HistOK_noprobes; eauto.
-      intros fs' o' Hin. apply in_map_iff in Hin as [x [E Hx]]. inversion E; subst. apply V; auto.
-    - eapply ProbeFresh_noprobes; eauto.
-    - apply apply_edit_ok. apply V. unfold visited.
-      generalize (Statement.states fs0 es). generalize fs0 at 1 3. intros d l. revert d.
-      induction l; simpl; intros; auto. destruct l; simpl; auto. right. apply (IHl a).
+    intros c o fs H S HS ALLV m e x Hm L. unfold Model.scc_stable in H. rewrite forallb_forall in H.
+    specialize (H S HS). apply orb_true_iff in H as [H|H].
+    - exfalso. apply negb_true_iff in H. rewrite <- not_true_iff_false in H. apply H.
+      apply forallb_forall. intros y Hy. specialize (ALLV y Hy).
+      destruct (Model.load_meta content_of ign_of c o fs y); auto.
+    - rewrite forallb_forall in H. specialize (H m Hm). rewrite L in H. unfold Model.equiv_b in H.
+      apply andb_true_iff in H as [H1 H2]. rewrite forallb_forall in H1, H2.
+      intros y. split; intros Hy. apply mem_In. auto. apply mem_In. auto.
   Qed.
 End Packaged.
